@@ -1,20 +1,23 @@
 #!/usr/bin/env python3
 """
-Small pure arithmetic functions of /repo -> lean/OH/Generated/Arith.lean  (tie 1, DESIGN §2.2 / §8.9)
+Small leaf functions of /repo -> lean/OH/Generated/Arith.lean  (tie 1, DESIGN §2.2 / §8.9)
 
-The functions listed in TARGETS (plain integer arithmetic, comparisons, Option plumbing) are parsed
-from the Rust sources on every run and written out as Lean definitions over the support library
-OH/Model/RustInt.lean: one `def` per Rust function, same evaluation order, every `+ - *` a checked
-operation whose overflow is an explicit outcome, `/ %` truncating, `as` wrapping, `try_into` a range
-test, `expect`/`assert!` an explicit panic outcome.  OH/Props/Arith<ID>.lean proves that the
-generated definitions never reach such an outcome (or exactly when the hand-written model says so)
-and that they equal the hand-written models, so the property theorems are re-checked against what
-the code says NOW.
+The functions listed in TARGETS (integer arithmetic, comparisons, Option/Result plumbing, generic range helpers,
+`&mut self` methods on bit masks and arrays, fieldless enums, small `match`es, associated constants, closures passed
+to iterator adaptors) are parsed from the Rust sources on every run and written out as Lean definitions over the
+support library OH/Model/RustInt.lean: one `def` per Rust function, same evaluation order, every `+ - *` a checked
+operation whose overflow is an explicit outcome, `/ %` truncating, `as` wrapping, `try_into` a range test,
+`expect`/`unwrap`/`assert!`/an array index out of bounds an explicit panic outcome, a `&mut self` method a
+state-passing function, a generic parameter `T: Ord` a Lean type parameter with decidable `<` `≤`.  Calls that need
+what is not translated (the evaluation context, chrono) are listed in HOLES: their RESULT becomes a parameter of the
+generated definition.  OH/Props/Arith<ID>*.lean proves that the generated definitions never reach a panic / overflow
+outcome (or exactly where the hand-written model says so) and that they equal the hand-written models, so the property
+theorems are re-checked against what the code says NOW.
 
-The parser is a strict recursive-descent parser for exactly the Rust subset these functions use
-(see `class Parser`); anything else -- an unknown token, statement, method, type, a type the
-inference cannot determine -- is an error naming file:line, exit status 1, and nothing is written.
-Comments, doc comments and attributes are skipped.
+The parser is a strict recursive-descent parser for exactly the Rust subset these functions use (see `class Parser`
+and DESIGN §8.9); anything else -- an unknown token, statement, method, type, a type the inference cannot determine, a
+macro of another shape, a missing `use` -- is an error naming file:line, exit status 1, and nothing is written.
+Comments, doc comments and attributes are skipped (`#[derive(..)]` is read where an order on a struct is used).
 
 usage:  rs2lean.py [--repo DIR] [--override REL=FILE]... [--out FILE]
         (DIR defaults to $VERIF_REPO or /repo; --override reads FILE in place of DIR/REL, for
@@ -33,21 +36,80 @@ F_DATES = "opening-hours/src/utils/dates.rs"
 F_FRAME = "opening-hours-syntax/src/normalize/frame.rs"
 F_DAY = "opening-hours-syntax/src/rules/day.rs"
 F_CC = "compact-calendar/src/lib.rs"
+F_RANGE = "opening-hours/src/utils/range.rs"
+F_TIME = "opening-hours-syntax/src/rules/time.rs"
+F_TF = "opening-hours/src/filter/time_filter.rs"
+F_DF = "opening-hours/src/filter/date_filter.rs"
 
 # what is translated: (file, impl type or None for free functions, trait or None, function names);
 # `structs`: (file, name) of the struct declarations the functions use (fields of integer type);
 # `externs`: library calls kept as the tuple of their arguments, with the parameter types of the
 # library's signature (chrono: `NaiveDate::from_ymd_opt(year: i32, month: u32, day: u32)`).
-STRUCTS = [(F_EXT, "ExtendedTime"), (F_DAY, "Year"), (F_DAY, "WeekNum"), (F_CC, "CompactMonth")]
+STRUCTS = [(F_EXT, "ExtendedTime"), (F_DAY, "Year"), (F_DAY, "WeekNum"), (F_CC, "CompactMonth"), (F_CC, "CompactYear"),
+           (F_TIME, "VariableTime"), (F_DAY, "YearRange"), (F_DAY, "WeekRange")]
+# fieldless enums (`enum E { A = 1, B = 2, .. }` or without discriminants): a Lean inductive + `E.discr`
+ENUMS = [(F_DAY, "Month"), (F_TIME, "TimeEvent")]
+# Types whose values are never looked into: parameters of these types are dropped from the Lean definition, they
+# can only be passed on to the calls listed in HOLES.  OPAQUE_FIELDS: the fields of an opaque type that may be
+# read (they are opaque again).  HOLES: (type, method) -> result type; the call is NOT translated: its RESULT becomes
+# an extra parameter `ext<n>` of the Lean definition, one per call site, in the order of evaluation (the theorems
+# quantify over it; what the callee does, including a panic inside it, is outside the definition).
+OPAQUE_TYPES = {"Context", "NaiveDate", "TimeSpan", "Time", "IsoWeek"}
+OPAQUE_FIELDS = {("TimeSpan", "range"): "Range < Time >"}
+HOLES = {("TimeEvent", "as_naive"): "ExtendedTime", ("Time", "as_naive"): "ExtendedTime",
+         # chrono: Datelike::year(), Datelike::iso_week(), IsoWeek::week()
+         ("NaiveDate", "year"): "i32", ("NaiveDate", "iso_week"): "IsoWeek", ("IsoWeek", "week"): "u32"}
+# `use PATH as ALIAS;` that the file has to contain for `ALIAS::Name` to be read as `Name`
+# what can be cross-checked of the parameter types assumed for the closures: the elements the first adaptor sees are
+# the items of `time_selector.as_naive(..)`, i.e. `<ts::TimeSpan as TimeFilter>::Output` = the result type of the
+# translated `TimeSpan::as_naive`; `.map` after `.filter_map(f)` sees the `Some` payloads of `f`
+CLOSURE_ELEM = {
+    ("TimeFilter", "intervals_at_clip"): (("TimeSpan", "as_naive"), "ret"),
+    ("TimeFilter", "intervals_at_next_day_clip"): (("TimeSpan", "as_naive"), "ret"),
+    ("TimeFilter", "intervals_at_next_day_shift"): (("TimeFilter", "intervals_at_next_day_clip"), "some"),
+}
+# a free function of another file may be called only if the calling file imports it from that file's module
+MODULE_OF = {F_RANGE: "crate::utils::range"}
+ALIASES = {F_TF: {"ts": "opening_hours_syntax::rules::time"}, F_DF: {"ds": "opening_hours_syntax::rules::day"}}
 TARGETS = [
     (F_EXT, "ExtendedTime", None, ["new", "mins_from_midnight", "from_mins_from_midnight", "add_minutes", "add_hours"]),
     (F_DATES, None, None, ["easter"]),
     (F_FRAME, "Year", "Framable", ["succ", "pred"]),
     (F_FRAME, "WeekNum", "Framable", ["succ", "pred"]),
-    (F_CC, "CompactMonth", None, ["contains", "first", "first_after", "count"]),
+    (F_CC, "CompactMonth", None, ["contains", "first", "first_after", "count", "insert"]),
+    (F_CC, "CompactYear", None, ["insert", "contains"]),
+    # generic code: the header is given in full; `T: PartialOrd` / `T: Ord` becomes a Lean type parameter with
+    # decidable `≤` and `<` (see `generic_binders`); the Lean namespace is the trait's name
+    ("impl < T : PartialOrd > WrappingRange < T > for RangeInclusive < T >", F_RANGE, "WrappingRange", ["wrapping_contains"]),
+    (F_RANGE, None, None, ["range_intersection"]),
+    # code generated by a macro: ("macro", file, macro name, the type it is invoked with, impl header of the
+    # expansion, Lean namespace, functions).  The shape of the macro is checked literally, see `expand_macro`.
+    # associated constants: ("const", file, type, names): `const NAME: T = e;` is a definition without parameters
+    ("const", F_EXT, "ExtendedTime", ["MIDNIGHT_00", "MIDNIGHT_24", "MIDNIGHT_48"]),
+    ("impl TimeFilter for ts :: VariableTime", F_TF, "VariableTime", ["as_naive"]),
+    ("impl TimeFilter for ts :: TimeSpan", F_TF, "TimeSpan", ["as_naive"]),
+    # closures: ("closure", file, enclosing free fn, the adaptor the closure is the argument of, which occurrence,
+    # parameter type, result type, Lean namespace, Lean name).  The closure has no type annotations: the two types
+    # are the ones rustc infers (the element type of the iterator the adaptor is called on) and are an ASSUMPTION of
+    # the translation; the body may only mention its parameter and translated items (a captured variable is an
+    # "unknown variable" error).
+    ("impl DateFilter for ds :: YearRange", F_DF, "YearRange", ["filter"]),
+    ("impl DateFilter for ds :: WeekRange", F_DF, "WeekRange", ["filter"]),
+    ("closure", F_TF, "time_selector_intervals_at", "filter_map", 0, "Range < ExtendedTime >", "Option < Range < ExtendedTime > >",
+     "TimeFilter", "intervals_at_clip"),
+    ("closure", F_TF, "time_selector_intervals_at_next_day", "filter_map", 0, "Range < ExtendedTime >", "Option < Range < ExtendedTime > >",
+     "TimeFilter", "intervals_at_next_day_clip"),
+    ("closure", F_TF, "time_selector_intervals_at_next_day", "map", 0, "Range < ExtendedTime >", "Range < ExtendedTime >",
+     "TimeFilter", "intervals_at_next_day_shift"),
+    ("macro", F_DAY, "impl_convert_for_month", "u8", "impl TryFrom < u8 > for Month", "Month", ["try_from"]),
+    (F_DAY, "Month", None, ["next", "prev"]),
+    (F_FRAME, "Month", "Framable", ["succ", "pred"]),
 ]
 EXTERNS = {"NaiveDate::from_ymd_opt": (["i32", "u32", "u32"], "Option < NaiveDate >")}
-FREE_NS = {F_DATES: "Dates"}
+FREE_NS = {F_DATES: "Dates", F_RANGE: "RangeUtils"}
+# library items that may be used unqualified only when the file imports them from exactly this module
+STD_USES = {"Range": "std::ops", "RangeInclusive": "std::ops", "max": "std::cmp", "min": "std::cmp"}
+ORD_BOUNDS = {"PartialOrd", "Ord"}
 
 INT_TYPES = {
     "u8": (0, 2**8 - 1), "u16": (0, 2**16 - 1), "u32": (0, 2**32 - 1), "u64": (0, 2**64 - 1), "usize": (0, 2**64 - 1),
@@ -223,12 +285,36 @@ def tint(name):
     return T("int", name)
 
 
+# type constructors with one argument: Option<T>, Result<T, _>, std::ops::Range<T>, std::ops::RangeInclusive<T>
+UNARY = ("opt", "res", "range", "rangeincl", "ref")
+
+
+def strip_ref(t):
+    """the referent of `&T` / `&&T` (auto-deref of method calls, field accesses and comparisons)"""
+    t = prune(t)
+    while isinstance(t, tuple) and t[0] == "ref":
+        t = prune(t[1])
+    return t
+
+
 def prune(t):
     while isinstance(t, TVar) and t.ref is not None:
         t = t.ref
-    if isinstance(t, tuple) and t[0] in ("opt", "res"):
+    if isinstance(t, tuple) and t[0] in UNARY:
         return (t[0], prune(t[1]))
     return t
+
+
+def type_head(t):
+    """the name under which the methods of a type are looked up"""
+    if isinstance(t, tuple):
+        if t[0] in ("struct", "enum", "opaque"):
+            return t[1]
+        if t[0] == "range":
+            return "Range"
+        if t[0] == "rangeincl":
+            return "RangeInclusive"
+    return None
 
 
 def show(t):
@@ -245,6 +331,18 @@ def show(t):
         return f"Option<{show(t[1])}>"
     if t[0] == "res":
         return f"Result<{show(t[1])}, _>"
+    if t[0] == "ref":
+        return f"&{show(t[1])}"
+    if t[0] == "range":
+        return f"Range<{show(t[1])}>"
+    if t[0] == "rangeincl":
+        return f"RangeInclusive<{show(t[1])}>"
+    if t[0] in ("tparam", "enum", "opaque"):
+        return t[1]
+    if t[0] == "array":
+        return f"[{show(t[1])}; {t[2]}]"
+    if t[0] == "tuple":
+        return "(" + ", ".join(show(x) for x in t[1:]) + ")"
     if t[0] == "externret":
         return EXTERNS[t[1]][1].replace(" ", "") + f" [the arguments of {t[1]}]"
     return str(t)
@@ -268,7 +366,7 @@ def unify(a, b, where):
         return unify(b, a, where)
     if a[0] != b[0]:
         fail(where, f"type mismatch: {show(a)} vs {show(b)}")
-    if a[0] in ("opt", "res"):
+    if a[0] in UNARY:
         return unify(a[1], b[1], where)
     if a != b:
         fail(where, f"type mismatch: {show(a)} vs {show(b)}")
@@ -285,30 +383,41 @@ class Node:
 
 class Parser:
     """
-    fn      := fn NAME ( params ) [-> type] block
-    params  := self | &self | name : type , ...
-    type    := u8|u16|u32|u64|usize|i8|i16|i32|i64|isize | bool | Self | STRUCT | Option<type>
+    fn      := fn NAME [< generics >] ( params ) -> type [where ..] block
+    generics:= 'a | T [: PartialOrd | Ord | other bounds (then T may only occur inside opaque types)] , ...
+    params  := self | &['a] self | &mut self | name : type , ...
+    type    := u8|..|isize | bool | Self | STRUCT | ENUM | T | &['a] type | Option<type> | Result<type, _>
+             | Range<type> | RangeInclusive<type> | OPAQUE[<..>] | Self::ASSOC[<..>] | ALIAS::type
     block   := { stmt* [expr] }
-    stmt    := let NAME [: type] = expr ;
-             | let Some(NAME) = expr else { return expr ; } ;
+    stmt    := let [mut] NAME [: type] = expr ;
+             | let Some(NAME) | Ok(NAME) = expr else { return expr ; } ;
              | assert!((LIT..=LIT).contains(&NAME)) ;
-             | return expr ;                                   (last statement of a block only)
-    expr    := binary operators  || && == != < <= > >= | ^ & << >> + - * / %  (Rust precedence), `as`,
-               unary - ! * (deref of `self` for a newtype with `impl Deref`), postfix
-               .field .0 .method(args) ?
-    primary := LIT | true | false | NAME | self | ( expr ) | if expr block else block | None | Some(expr)
-             | Self { field[: expr], .. } | Self(expr, ..) | STRUCT(expr, ..) | Self::f(args) | f(args)
-             | T::from(expr) | EXTERN::path(args)
-    methods := try_into() ok() expect("..") unwrap() into() checked_add(e) checked_sub(e) checked_mul(e)
-               trailing_zeros() count_ones() and calls of translated methods of the same type
+             | place = expr ; | place OP= expr ;          (place: `let mut` local, field of `self` in a `&mut self` fn)
+             | expr ;                                      (only the call of a `&mut self` method)
+             | return expr ;                               (last statement of a block only)
+    expr    := range `a..b` `a..=b` (lowest) then  || && == != < <= > >= | ^ & << >> + - * / %  (Rust precedence), `as`,
+               unary - ! * &, postfix .field .0 .method(args) [index] ?
+    primary := LIT | true | false | NAME | self | ( expr ) | { block } | if expr block else block
+             | match expr { (LIT | Enum::V | _) => expr , .. } | return expr | None | Some(e) | Ok(e) | Err(NAME)
+             | Self { field[: expr], .. } | Self(expr, ..) | STRUCT(expr, ..) | Self::f(args) | f(args) | Type::CONST
+             | Enum::Variant | T::from(expr) | EXTERN::path(args) | max(a, b) | min(a, b) | std::cmp::max(a, b)
+    methods := try_into() ok() expect("..") unwrap() unwrap_or(e) or_else(|| e) map_err(|_| NAME) into()
+               checked_add/sub/mul(e) saturating_sub(e) trailing_zeros() count_ones() start() end() contains(&e),
+               calls of translated methods, and the untranslated calls of HOLES
     """
 
+    ASSIGN = {"=": None, "+=": "+", "-=": "-", "*=": "*", "/=": "/", "%=": "%", "|=": "|", "&=": "&", "^=": "^", "<<=": "<<", ">>=": ">>"}
     BIN = [
         ("||",), ("&&",), ("==", "!=", "<", "<=", ">", ">="), ("|",), ("^",), ("&",), ("<<", ">>"), ("+", "-"), ("*", "/", "%"),
     ]
 
-    def __init__(self, toks, fname, structs):
+    def __init__(self, toks, fname, structs, tparams=None, uses=(), enums=(), aliases=(), assoc=None):
         self.t, self.i, self.f, self.structs = toks, 0, fname, structs
+        self.enums = set(enums)
+        self.aliases = set(aliases)  # module aliases `use .. as ALIAS;` checked by the caller: `ALIAS::Name` is `Name`
+        self.assoc = dict(assoc or {})  # associated types of the impl: `Self::Name<..>`
+        self.tparams = dict(tparams or {})  # generic parameter -> set of trait bounds (of the impl, then of the fn)
+        self.uses = set(uses)  # names of STD_USES the file imports from the expected module
 
     def where(self, tok=None):
         return f"{self.f}:{(tok or self.t[self.i]).line}"
@@ -325,6 +434,19 @@ class Parser:
         self.i += 1
         return self.t[self.i - 1]
 
+    def close_angle(self):
+        """the `>` closing a generic argument list; `>>` is one token and closes two lists"""
+        if self.at(">>"):
+            if getattr(self, "half", False):
+                self.half = False
+                self.i += 1
+            else:
+                self.half = True
+            return
+        if getattr(self, "half", False):
+            fail(self.where(), "unbalanced `>>`")
+        self.eat(">")
+
     def ident(self):
         tk = self.peek()
         if tk.kind != "id":
@@ -336,42 +458,156 @@ class Parser:
     def type_(self):
         tk = self.peek()
         if tk.text == "&":
-            fail(self.where(), "reference types are outside the translated subset")
+            # a shared reference to a value of the subset is the value (no `&mut`, no interior mutability, no
+            # pointer identity in the subset; `&A: PartialOrd<&B>` compares the referents)
+            self.i += 1
+            if self.peek().kind == "life":
+                self.i += 1
+            if self.at("mut"):
+                fail(self.where(), "`&mut` types are outside the translated subset")
+            return T("ref", self.type_())
         for path, (_, rty) in EXTERNS.items():  # the result type of a library call kept as its arguments
             want = rty.split()
             if [x.text for x in self.t[self.i : self.i + len(want)]] == want:
                 self.i += len(want)
                 return T("externret", path)
         name = self.ident()
+        if name in self.aliases and self.at("::"):
+            self.i += 1
+            return self.type_()
         if name in INT_TYPES:
             return tint(name)
         if name == "bool":
             return BOOL
+        if name == "Self" and self.at("::"):
+            self.i += 1
+            an = self.ident()
+            if an not in self.assoc:
+                fail(self.where(tk), f"associated type `Self::{an}` is outside the translated subset")
+            self.skip_generic_args()
+            return self.assoc[an]
         if name == "Self":
             return T("struct", "Self")
+        if name in OPAQUE_TYPES and name not in self.structs and name not in self.enums:
+            self.skip_generic_args()
+            return T("opaque", name)
         if name == "Option":
             self.eat("<")
             inner = self.type_()
-            self.eat(">")
+            self.close_angle()
             return T("opt", inner)
         if name in self.structs:
             return T("struct", name)
+        if name in self.enums:
+            return T("enum", name)
+        if name == "Result":
+            # `Result<T, E>`: the error value is not translated (`Ok(v)` is `some v`, every `Err(..)` is `none`)
+            self.eat("<")
+            inner = self.type_()
+            self.eat(",")
+            depth = 0
+            while not (depth == 0 and (self.at(">") or self.at(">>"))):
+                if self.at("<"):
+                    depth += 1
+                elif self.at(">"):
+                    depth -= 1
+                elif self.peek().kind == "eof" or self.peek().text in ("{", ";", "("):
+                    fail(self.where(), "unterminated `Result<..>`")
+                self.i += 1
+            self.close_angle()
+            return T("res", inner)
+        if name in self.tparams:
+            if self.tparams[name] is None:
+                fail(self.where(tk), f"the generic parameter `{name}` (not bounded by PartialOrd / Ord alone) used as a type of its own")
+            return T("tparam", name)
+        if name in ("Range", "RangeInclusive"):
+            self.need_use(name, tk)
+            self.eat("<")
+            inner = self.type_()
+            self.close_angle()
+            return T("range" if name == "Range" else "rangeincl", inner)
         fail(self.where(tk), f"type `{name}` is outside the translated subset")
+
+    def skip_generic_args(self):
+        if self.at("<"):
+            depth = 0
+            while True:
+                if self.at("<"):
+                    depth += 1
+                elif self.at(">"):
+                    depth -= 1
+                elif self.at(">>"):
+                    depth -= 2
+                elif self.peek().kind == "eof" or self.peek().text in ("{", ";"):
+                    fail(self.where(), "unterminated generic arguments")
+                self.i += 1
+                if depth <= 0:
+                    if depth < 0:
+                        fail(self.where(), "unbalanced `>>`")
+                    return
+
+    def need_use(self, name, tk):
+        if name not in self.uses:
+            fail(self.where(tk), f"`{name}` is translated as `{STD_USES[name]}::{name}`, but the file does not import it from there")
+
+    def generics(self):
+        """`< T : Bound [+ Bound] , .. >` with bounds among PartialOrd / Ord"""
+        self.eat("<")
+        while not self.at(">"):
+            tk = self.peek()
+            if tk.kind == "life":
+                self.i += 1  # a lifetime parameter: references are values, lifetimes leave no trace
+                if self.at(":"):
+                    fail(self.where(), "lifetime bounds are outside the translated subset")
+                if not self.at(">"):
+                    self.eat(",")
+                continue
+            name = self.ident()
+            if name in self.tparams or name in self.structs or name in INT_TYPES:
+                fail(self.where(tk), f"generic parameter `{name}` shadows another name")
+            bounds, foreign = set(), False
+            if self.at(":"):
+                self.i += 1
+                while True:
+                    btk = self.peek()
+                    if btk.kind == "life":
+                        self.i += 1
+                    else:
+                        b = self.ident()
+                        if b not in ORD_BOUNDS:
+                            foreign = True
+                        bounds.add(b)
+                    if not self.at("+"):
+                        break
+                    self.i += 1
+            # a parameter with another bound (`L: Localize`) may only occur inside an opaque type: it is `None`
+            # here, `type_` refuses it as a type of its own, and it does not reach the Lean definition
+            self.tparams[name] = None if foreign else bounds
+            if not self.at(">"):
+                self.eat(",")
+        self.eat(">")
 
     # -- function
     def fn(self):
         line = self.eat("fn").line  # visibility / `const` before `fn` are irrelevant and not looked at
         name = self.ident()
         if self.at("<"):
-            fail(self.where(), "generic functions are outside the translated subset")
+            self.generics()
         self.eat("(")
-        params, has_self = [], False
+        params, has_self, mut_self, ref_self = [], False, False, False
         while not self.at(")"):
-            if self.at("&") and self.peek(1).text == "self":
+            if self.at("&") and self.peek(1).kind == "life" and self.peek(2).text == "self":
+                self.i += 3
+                has_self = ref_self = True
+            elif self.at("&") and self.peek(1).text == "self":
                 self.i += 2
-                has_self = True
+                has_self = ref_self = True
+            elif self.at("&") and self.peek(1).text == "mut" and self.peek(2).text == "self":
+                # `&mut self`: the function is translated in state-passing style, `self -> args -> R (result × self)`
+                self.i += 3
+                has_self = mut_self = True
             elif self.at("&") and self.peek(1).text == "mut":
-                fail(self.where(), "`&mut` parameters are outside the translated subset")
+                fail(self.where(), "`&mut` parameters other than `&mut self` are outside the translated subset")
             elif self.at("self"):
                 self.i += 1
                 has_self = True
@@ -390,8 +626,36 @@ class Parser:
             ret = self.type_()
         if ret is None:
             fail(self.where(), "a function without a return value is outside the translated subset")
+        if self.at("where"):
+            # `where L: Bound + .., ..`: as the bounds in `<..>`
+            self.i += 1
+            while not self.at("{"):
+                wtk = self.peek()
+                wn = self.ident()
+                if wn not in self.tparams:
+                    fail(self.where(wtk), "a `where` clause on something else than a generic parameter of the function")
+                self.eat(":")
+                foreign = False
+                while True:
+                    btk = self.peek()
+                    if btk.kind == "life":
+                        self.i += 1
+                    else:
+                        b = self.ident()
+                        if b not in ORD_BOUNDS:
+                            foreign = True
+                        elif self.tparams[wn] is not None:
+                            self.tparams[wn].add(b)
+                    if not self.at("+"):
+                        break
+                    self.i += 1
+                if foreign:
+                    self.tparams[wn] = None
+                if not self.at("{"):
+                    self.eat(",")
         body = self.block()
-        return Node("fn", line, name=name, params=params, has_self=has_self, ret=ret, body=body)
+        return Node("fn", line, name=name, params=params, has_self=has_self, mut_self=mut_self, ref_self=ref_self, ret=ret,
+                    body=body, tparams=dict(self.tparams))
 
     def block(self):
         line = self.eat("{").line
@@ -410,9 +674,19 @@ class Parser:
                 tail = Node("return", ln, e=e)
             else:
                 e = self.expr()
-                if self.at(";"):
-                    fail(self.where(), "expression statements (side effects) are outside the translated subset")
-                tail = e
+                tk = self.peek()
+                if tk.kind == "op" and tk.text in self.ASSIGN:
+                    # `place = e;` / `place op= e;` with place = a `let mut` local or a field of `self` (`&mut self`)
+                    self.i += 1
+                    rhs = self.expr()
+                    self.eat(";")
+                    stmts.append(Node("assign", tk.line, place=e, op=self.ASSIGN[tk.text], e=rhs))
+                elif self.at(";"):
+                    # only the call of a `&mut self` method may stand as a statement (checked by the type inference)
+                    self.i += 1
+                    stmts.append(Node("exprstmt", e.line, e=e))
+                else:
+                    tail = e
         self.eat("}")
         if tail is None:
             fail(f"{self.f}:{line}", "a block without a value is outside the translated subset")
@@ -420,7 +694,8 @@ class Parser:
 
     def let(self):
         line = self.eat("let").line
-        if self.at("Some"):
+        if (self.at("Some") or self.at("Ok")) and self.peek(1).text == "(":
+            is_res = self.at("Ok")
             self.i += 1
             self.eat("(")
             name = self.ident()
@@ -434,9 +709,11 @@ class Parser:
             self.eat(";")
             self.eat("}")
             self.eat(";")
-            return Node("letsome", line, name=name, e=e, orelse=r)
+            return Node("letsome", line, name=name, e=e, orelse=r, is_res=is_res)
+        mut = False
         if self.at("mut"):
-            fail(self.where(), "`let mut` is outside the translated subset")
+            self.i += 1
+            mut = True  # reassigned by straight-line `x = e;` / `x op= e;` statements (no loops in the subset)
         name = self.ident()
         ann = None
         if self.at(":"):
@@ -445,7 +722,7 @@ class Parser:
         self.eat("=")
         e = self.expr()
         self.eat(";")
-        return Node("let", line, name=name, ann=ann, e=e)
+        return Node("let", line, name=name, ann=ann, e=e, mut=mut)
 
     def assert_(self):
         """exactly `assert!((LO..=HI).contains(&NAME));`"""
@@ -480,7 +757,18 @@ class Parser:
         return Node("lit", tk.line, value=int(m.group(1).replace("_", "")), suffix=m.group(2) or None)
 
     # -- expressions
-    def expr(self, level=0, nostruct=False):
+    def expr(self, level=-1, nostruct=False):
+        if level == -1:
+            # `a..b`, `a..=b`: below `||`, not associative; open-ended ranges are outside the subset
+            lhs = self.expr(0, nostruct)
+            if self.peek().kind == "op" and self.peek().text in ("..", "..="):
+                op = self.peek()
+                self.i += 1
+                rhs = self.expr(0, nostruct)
+                if self.peek().kind == "op" and self.peek().text in ("..", "..="):
+                    fail(self.where(), "chained range operator")
+                return Node("range", op.line, l=lhs, r=rhs, incl=(op.text == "..="))
+            return lhs
         if level == len(self.BIN):
             return self.cast(nostruct)
         lhs = self.expr(level + 1, nostruct)
@@ -512,7 +800,11 @@ class Parser:
             e = self.unary(nostruct)
             return Node({"-": "neg", "!": "not", "*": "deref"}[tk.text], tk.line, e=e)
         if tk.kind == "op" and tk.text == "&":
-            fail(self.where(), "references are outside the translated subset")
+            self.i += 1
+            if self.at("mut"):
+                fail(self.where(), "`&mut` is outside the translated subset")
+            e = self.unary(nostruct)
+            return Node("ref", tk.line, e=e)  # a shared reference to a value is the value, see `type_`
         return self.postfix(nostruct)
 
     def args(self):
@@ -531,6 +823,11 @@ class Parser:
             if self.at("?"):
                 ln = self.eat("?").line
                 e = Node("try", ln, e=e)
+            elif self.at("["):
+                ln = self.eat("[").line
+                idx = self.expr()
+                self.eat("]")
+                e = Node("index", ln, e=e, idx=idx)
             elif self.at("."):
                 ln = self.eat(".").line
                 tk = self.peek()
@@ -567,6 +864,18 @@ class Parser:
                 fail(self.where(), "tuples are outside the translated subset")
             self.eat(")")
             return Node("paren", tk.line, e=e)
+        if tk.kind == "op" and tk.text == "{":
+            return Node("blockexpr", tk.line, b=self.block())
+        if tk.kind == "op" and tk.text == "||":
+            # `|| expr`: a closure without parameters, only as the argument of `or_else`
+            self.i += 1
+            return Node("thunk", tk.line, e=self.expr())
+        if tk.kind == "op" and tk.text == "|" and self.peek(1).text == "_" and self.peek(2).text == "|":
+            # `|_| NAME`: only as the argument of `map_err` (the error value is not translated)
+            self.i += 3
+            body = self.peek()
+            self.ident()
+            return Node("errclosure", tk.line, name=body.text)
         if tk.kind != "id":
             fail(self.where(), f"`{tk.text}` is outside the translated subset")
         if tk.text == "if":
@@ -582,7 +891,13 @@ class Parser:
             else:
                 b = self.block()
             return Node("if", tk.line, c=c, a=a, b=b)
-        if tk.text in ("match", "loop", "while", "for", "unsafe", "move", "async", "break", "continue", "let", "return"):
+        if tk.text == "match":
+            return self.match_(nostruct)
+        if tk.text == "return":
+            self.i += 1
+            e = self.expr()
+            return Node("return", tk.line, e=e)
+        if tk.text in ("loop", "while", "for", "unsafe", "move", "async", "break", "continue", "let"):
             fail(self.where(), f"`{tk.text}` is outside the translated subset")
         # path
         path = [self.ident()]
@@ -604,6 +919,17 @@ class Parser:
                 if len(a) != 1:
                     fail(self.where(tk), "Some takes one argument")
                 return Node("some", tk.line, e=a[0])
+            if name == "Ok":
+                a = self.args()
+                if len(a) != 1:
+                    fail(self.where(tk), "Ok takes one argument")
+                return Node("some", tk.line, e=a[0], result=True)
+            if name == "Err":
+                # the error value is not translated: it has to be a plain name (a unit struct)
+                self.eat("(")
+                self.ident()
+                self.eat(")")
+                return Node("none", tk.line, result=True)
             if name == "Self" or name in self.structs:
                 if self.at("{") and not nostruct:
                     self.i += 1
@@ -632,16 +958,63 @@ class Parser:
                 return Node("self", tk.line)
             return Node("var", tk.line, name=name)
         if not self.at("("):
+            if len(path) == 2 and (path[0] == "Self" or path[0] in self.enums or path[0] in self.structs):
+                # a variant of a translated enum or an associated constant of a translated struct (resolved by the types)
+                return Node("variant", tk.line, enum=path[0], name=path[1])
             fail(self.where(tk), f"path `{'::'.join(path)}` (constant) is outside the translated subset")
         a = self.args()
         return Node("call", tk.line, path=path, args=a)
+
+    def match_(self, nostruct):
+        """`match e { PAT => expr, .. }` with PAT an integer literal, `Self::Variant` / `Enum::Variant`, or `_` (last)"""
+        line = self.eat("match").line
+        scrut = self.expr(nostruct=True)
+        self.eat("{")
+        arms = []
+        while not self.at("}"):
+            ptk = self.peek()
+            if ptk.kind == "num":
+                pat = self.int_lit()
+            elif ptk.text == "_":
+                self.i += 1
+                pat = Node("wild", ptk.line)
+            elif ptk.kind == "id":
+                path = [self.ident()]
+                while self.at("::"):
+                    self.i += 1
+                    path.append(self.ident())
+                if len(path) != 2:
+                    fail(self.where(ptk), "this pattern is outside the translated subset")
+                pat = Node("variant", ptk.line, enum=path[0], name=path[1])
+            else:
+                fail(self.where(), f"pattern `{ptk.text}` is outside the translated subset")
+            if self.at("|") or self.at("if") or self.at("@") or self.at("..=") or self.at("("):
+                fail(self.where(), "this pattern is outside the translated subset")
+            self.eat("=>")
+            if self.at("{"):
+                body = self.block()
+                if self.at(","):
+                    self.i += 1
+            else:
+                bl = self.peek().line
+                body = Node("block", bl, stmts=[], tail=self.expr())
+                if not self.at("}"):
+                    self.eat(",")
+            if arms and arms[-1][0].kind == "wild":
+                fail(self.where(ptk), "an arm after `_`")
+            arms.append((pat, body))
+        self.eat("}")
+        if not arms:
+            fail(f"{self.f}:{line}", "empty match")
+        return Node("match", line, scrut=scrut, arms=arms)
 
 
 # ------------------------------------------------------------------------------------------------
 # locating items
 
-def find_struct(toks, fname, name):
-    """`struct NAME { f: int, .. }` or `struct NAME(int, ..);` -> ordered [(field, int type)]"""
+def find_struct(toks, fname, name, known=(), known_enums=()):
+    """`struct NAME { f: int, .. }` or `struct NAME(int | [ELEM; N], ..);` -> ordered [(field, type)];
+    ELEM an integer type or a struct of `known` (translated before)"""
     for i, tk in enumerate(toks):
         if tk.text == "struct" and tk.kind == "id" and toks[i + 1].text == name:
             j = i + 2
@@ -656,11 +1029,17 @@ def find_struct(toks, fname, name):
                         j += 1
                         if toks[j].text == "(":
                             j = matching(toks, j) + 1
-                    fn, colon, ty = toks[j], toks[j + 1], toks[j + 2]
-                    if fn.kind != "id" or colon.text != ":" or ty.text not in INT_TYPES:
-                        fail(f"{fname}:{fn.line}", f"struct {name}: a field that is not `name: <integer type>`")
-                    fields.append((fn.text, tint(ty.text)))
-                    j += 3
+                    fn, colon = toks[j], toks[j + 1]
+                    if fn.kind != "id" or colon.text != ":":
+                        fail(f"{fname}:{fn.line}", f"struct {name}: unexpected `{fn.text}`")
+                    tp = Parser(toks, fname, set(known), uses=set(STD_USES), enums=set(known_enums))
+                    tp.i = j + 2
+                    ft = tp.type_()
+                    if ft[0] not in ("int", "struct", "enum", "bool", "rangeincl", "range") or \
+                            (ft[0] in ("range", "rangeincl") and ft[1][0] not in ("int", "struct")):
+                        fail(f"{fname}:{fn.line}", f"struct {name}: the type of field {fn.text} is outside the translated subset")
+                    fields.append((fn.text, ft))
+                    j = tp.i
                     if j < end:
                         if toks[j].text != ",":
                             fail(f"{fname}:{toks[j].line}", f"struct {name}: unexpected `{toks[j].text}`")
@@ -676,11 +1055,22 @@ def find_struct(toks, fname, name):
                         if toks[j].text == "(":
                             j = matching(toks, j) + 1
                     ty = toks[j]
-                    if ty.text not in INT_TYPES:
-                        fail(f"{fname}:{ty.line}", f"struct {name}: a field that is not an integer type")
-                    fields.append((str(k), tint(ty.text)))
-                    k += 1
-                    j += 1
+                    if ty.text == "[":
+                        close = matching(toks, j)
+                        inner = toks[j + 1 : close]
+                        if len(inner) != 3 or inner[1].text != ";" or not re.fullmatch(r"\d+", inner[2].text) or \
+                                not (inner[0].text in INT_TYPES or inner[0].text in known):
+                            fail(f"{fname}:{ty.line}", f"struct {name}: an array field that is not `[<integer type or translated struct>; N]`")
+                        elem = tint(inner[0].text) if inner[0].text in INT_TYPES else T("struct", inner[0].text)
+                        fields.append((str(k), T("array", elem, int(inner[2].text))))
+                        k += 1
+                        j = close + 1
+                    else:
+                        if ty.text not in INT_TYPES:
+                            fail(f"{fname}:{ty.line}", f"struct {name}: a field that is not an integer type")
+                        fields.append((str(k), tint(ty.text)))
+                        k += 1
+                        j += 1
                     if j < end:
                         if toks[j].text != ",":
                             fail(f"{fname}:{toks[j].line}", f"struct {name}: unexpected `{toks[j].text}`")
@@ -688,6 +1078,171 @@ def find_struct(toks, fname, name):
                 return fields, tk.line
             fail(f"{fname}:{tk.line}", f"struct {name}: unexpected shape")
     fail(fname, f"struct {name} not found")
+
+
+def find_enum(toks, fname, name):
+    """`enum NAME { A = 1, B = 2, .. }` (all discriminants explicit) or `enum NAME { A, B, .. }` (none; 0, 1, ..):
+    fieldless variants only -> [(variant, discriminant)], line"""
+    for i, tk in enumerate(toks):
+        if tk.text == "enum" and tk.kind == "id" and toks[i + 1].text == name:
+            j = i + 2
+            if toks[j].text != "{":
+                fail(f"{fname}:{tk.line}", f"enum {name}: generic or unexpected shape")
+            end = matching(toks, j)
+            j += 1
+            out, explicit = [], None
+            while j < end:
+                v = toks[j]
+                if v.kind != "id":
+                    fail(f"{fname}:{v.line}", f"enum {name}: unexpected `{v.text}`")
+                j += 1
+                if toks[j].text == "=":
+                    if explicit is False or toks[j + 1].kind != "num" or not re.fullmatch(r"\d+", toks[j + 1].text):
+                        fail(f"{fname}:{v.line}", f"enum {name}: discriminants must be all explicit plain literals or all implicit")
+                    explicit = True
+                    out.append((v.text, int(toks[j + 1].text)))
+                    j += 2
+                else:
+                    if explicit is True:
+                        fail(f"{fname}:{v.line}", f"enum {name}: discriminants must be all explicit plain literals or all implicit")
+                    explicit = False
+                    out.append((v.text, len(out)))
+                if j < end:
+                    if toks[j].text != ",":
+                        fail(f"{fname}:{toks[j].line}", f"enum {name}: variant {v.text} has fields (outside the translated subset)")
+                    j += 1
+            if len({n for n, _ in out}) != len(out) or len({d for _, d in out}) != len(out) or not out:
+                fail(f"{fname}:{tk.line}", f"enum {name}: duplicate variant or discriminant")
+            return out, tk.line
+    fail(fname, f"enum {name} not found")
+
+
+def expand_macro(toks, fname, macro, arg):
+    """The tokens `macro!(.., arg, ..)` expands to for `arg`, for a macro of exactly this shape:
+
+        macro_rules! M {
+            ( $x: ty ) => { BODY };
+            ( $x: ty, $( $tail: tt )+ ) => { M!($x); M!($($tail)+); };
+        }
+        M!(t1, t2, ..);        -- one invocation, at top level, each ti a single identifier, `arg` among them
+
+    i.e. BODY is instantiated once per listed type; the result is BODY with `$x` replaced by `arg` (the line
+    numbers are those of BODY)."""
+    texts = [tk.text for tk in toks]
+    defs = [i for i in range(len(toks) - 3) if texts[i : i + 4] == ["macro_rules", "!", macro, "{"]]
+    if len(defs) != 1:
+        fail(fname, f"macro_rules! {macro}: {len(defs)} definitions found")
+    o = defs[0] + 3
+    end = matching(toks, o)
+    arms, j = [], o + 1
+    while j < end:
+        if texts[j] != "(":
+            fail(f"{fname}:{toks[j].line}", f"macro {macro}: unexpected `{texts[j]}`")
+        pe = matching(toks, j)
+        if texts[pe + 1] != "=>" or texts[pe + 2] != "{":
+            fail(f"{fname}:{toks[pe].line}", f"macro {macro}: unexpected arm shape")
+        be = matching(toks, pe + 2)
+        arms.append((texts[j + 1 : pe], toks[pe + 3 : be]))
+        j = be + 1
+        if j < end and texts[j] == ";":
+            j += 1
+    if len(arms) != 2 or len(arms[0][0]) != 4 or arms[0][0][0] != "$" or arms[0][0][2:] != [":", "ty"]:
+        fail(fname, f"macro {macro}: not of the shape `($x: ty) => {{..}}; ($x: ty, $($tail: tt)+) => {{..}}`")
+    x = arms[0][0][1]
+    tail = arms[1][0][8] if len(arms[1][0]) == 13 else None
+    if arms[1][0] != ["$", x, ":", "ty", ",", "$", "(", "$", tail, ":", "tt", ")", "+"]:
+        fail(fname, f"macro {macro}: the second arm is not `($x: ty, $($tail: tt)+)`")
+    want_body = [macro, "!", "(", "$", x, ")", ";", macro, "!", "(", "$", "(", "$", tail, ")", "+", ")", ";"]
+    if [tk.text for tk in arms[1][1]] != want_body:
+        fail(fname, f"macro {macro}: the second arm is not `{macro}!($x); {macro}!($($tail)+);`")
+    # the invocation
+    inv, depth = [], 0
+    for i, tk in enumerate(toks):
+        if tk.kind == "op" and tk.text == "{":
+            depth += 1
+        elif tk.kind == "op" and tk.text == "}":
+            depth -= 1
+        elif depth == 0 and tk.text == macro and texts[i + 1] == "!" and texts[i + 2] == "(" and texts[i - 1] != "!":
+            inv.append(i)
+    if len(inv) != 1:
+        fail(fname, f"macro {macro}: {len(inv)} invocations at top level")
+    a = inv[0] + 2
+    ae = matching(toks, a)
+    items = texts[a + 1 : ae]
+    if any((k % 2 == 1) != (t == ",") for k, t in enumerate(items)) or any(toks[a + 1 + k].kind != "id" for k in range(0, len(items), 2)):
+        fail(f"{fname}:{toks[a].line}", f"macro {macro}: the invocation is not a list of identifiers")
+    if arg not in items[::2]:
+        fail(f"{fname}:{toks[a].line}", f"macro {macro} is not invoked with `{arg}`")
+    out, body, i = [], arms[0][1], 0
+    while i < len(body):
+        if body[i].text == "$":
+            if body[i + 1].text != x:
+                fail(f"{fname}:{body[i].line}", f"macro {macro}: unknown metavariable ${body[i + 1].text}")
+            out.append(Tok("id", arg, body[i].line))
+            i += 2
+        else:
+            out.append(body[i])
+            i += 1
+    out.append(Tok("eof", "", body[-1].line if body else 0))
+    return out
+
+
+def derives_of(raw, name):
+    """the traits in the `#[derive(..)]` attributes in front of `struct NAME` (on the tokens WITH attributes)"""
+    for i, tk in enumerate(raw):
+        if tk.text == "struct" and tk.kind == "id" and raw[i + 1].text == name:
+            out, j = set(), i - 1
+            while j >= 0 and raw[j].text in ("pub", ")", "crate", "("):
+                j -= 1  # `pub`, `pub(crate)`
+            while j >= 0 and raw[j].text == "]":
+                depth, o = 0, j
+                while True:
+                    if raw[o].text == "]":
+                        depth += 1
+                    elif raw[o].text == "[":
+                        depth -= 1
+                        if depth == 0:
+                            break
+                    o -= 1
+                if o < 1 or raw[o - 1].text != "#":
+                    break
+                inner = [t.text for t in raw[o + 1 : j]]
+                if inner[:2] == ["derive", "("] and inner[-1] == ")":
+                    out |= {x for x in inner[2:-1] if x != ","}
+                j = o - 2
+            return out
+    return set()
+
+
+def find_const(toks, fname, impl_ty, name):
+    """index of `const NAME` inside `impl TYPE {` (depth 0 of the impl)"""
+    texts = [tk.text for tk in toks]
+    header = ["impl", impl_ty, "{"]
+    found = []
+    for b in [i for i in range(len(texts) - 3) if texts[i : i + 3] == header]:
+        o = b + 2
+        end = matching(toks, o)
+        depth = 0
+        for i in range(o + 1, end):
+            if texts[i] == "{":
+                depth += 1
+            elif texts[i] == "}":
+                depth -= 1
+            elif depth == 0 and texts[i] == "const" and texts[i + 1] == name and texts[i + 2] == ":":
+                found.append(i)
+    if len(found) != 1:
+        fail(fname, f"associated constant {impl_ty}::{name}: {len(found)} definitions found")
+    return found[0]
+
+
+def has_use_as(toks, path, alias):
+    """`use PATH as ALIAS;` or `use PATH::{self as ALIAS, ..};`"""
+    segs = [x for seg in path.split("::") for x in (seg, "::")][:-1]
+    want = ["use"] + segs + ["as", alias, ";"]
+    want2 = ["use"] + segs + ["::", "{", "self", "as", alias]
+    texts = [tk.text for tk in toks]
+    return any(texts[i : i + len(want)] == want or (texts[i : i + len(want2)] == want2 and texts[i + len(want2)] in (",", "}"))
+               for i in range(len(texts) - len(want) + 1))
 
 
 def has_deref_to_field0(toks, name, fty):
@@ -700,9 +1255,48 @@ def has_deref_to_field0(toks, name, fty):
     return False
 
 
-def find_impl_fns(toks, fname, impl_ty, trait, names):
+def file_uses(toks):
+    """the (module, name) pairs the file imports at top level: `use a::b::Name;` or `use a::b::{Name, Other};`
+    (no renaming, no glob, no nesting)"""
+    out = set()
+    texts = [tk.text for tk in toks]
+    depth = 0
+    for i, tk in enumerate(toks):
+        if tk.kind == "op" and tk.text == "{":
+            depth += 1
+        elif tk.kind == "op" and tk.text == "}":
+            depth -= 1
+        elif depth == 0 and tk.kind == "id" and tk.text == "use":
+            j = i + 1
+            path = []
+            while toks[j].kind == "id" and texts[j + 1] == "::":
+                path.append(texts[j])
+                j += 2
+            mod = "::".join(path)
+            if toks[j].kind == "id" and texts[j + 1] == ";":
+                names = [texts[j]]
+            elif texts[j] == "{":
+                end = matching(toks, j)
+                inner = texts[j + 1 : end]
+                if any(x in ("{", "as", "*", "::") for x in inner):
+                    continue
+                names = [x for x in inner if x != ","]
+            else:
+                continue
+            for n in names:
+                out.add((mod, n))
+    return out
+
+
+def std_uses(toks):
+    """the names of STD_USES that the file imports from the expected module"""
+    return {n for m, n in file_uses(toks) if STD_USES.get(n) == m}
+
+
+def find_impl_fns(toks, fname, impl_ty, trait, names, header=None):
     """token index of the `fn` item (possibly preceded by pub/const) for each name, inside
-    `impl [Trait for] Type {` (or at top level when impl_ty is None)"""
+    `impl [Trait for] Type {` (or at top level when impl_ty is None); `header`: the tokens of a generic
+    impl header given in full"""
     found = {}
     if impl_ty is None:
         depth = 0
@@ -716,7 +1310,7 @@ def find_impl_fns(toks, fname, impl_ty, trait, names):
                     fail(f"{fname}:{tk.line}", f"two functions named {toks[i + 1].text}")
                 found[toks[i + 1].text] = i
     else:
-        header = ["impl"] + ([trait, "for"] if trait else []) + [impl_ty, "{"]
+        header = (header + ["{"]) if header else ["impl"] + ([trait, "for"] if trait else []) + [impl_ty, "{"]
         texts = [tk.text for tk in toks]
         blocks = [i for i in range(len(texts) - len(header)) if texts[i : i + len(header)] == header]
         if not blocks:
@@ -744,15 +1338,50 @@ def find_impl_fns(toks, fname, impl_ty, trait, names):
 # ------------------------------------------------------------------------------------------------
 # type inference
 
+def parse_type_str(text, structs, enums):
+    """a type of the tables (OPAQUE_FIELDS, HOLES) given as space-separated tokens"""
+    toks = [Tok("op" if not re.match(r"\w", x) else "id", x, 0) for x in text.split()] + [Tok("eof", "", 0)]
+    p = Parser(toks, "(tables of rs2lean.py)", set(structs), uses=set(STD_USES), enums=set(enums))
+    t = p.type_()
+    if p.peek().kind != "eof":
+        fail("(tables of rs2lean.py)", f"type `{text}`")
+    return t
+
+
+def strip_paren(e):
+    while e.kind == "paren":
+        e = e.e
+    return e
+
+
 class FnInfo:
-    def __init__(self, key, ns, lean_name, node, self_ty, fname):
+    def __init__(self, key, ns, lean_name, node, self_ty, fname, self_t=None, uses=()):
         self.key, self.ns, self.lean_name, self.node, self.self_ty, self.fname = key, ns, lean_name, node, self_ty, fname
+        # self_ty: the name of the impl's type (sites, method lookup); self_t: the type itself
+        self.self_t = self_t if self_t is not None else (T("struct", self_ty) if self_ty else None)
+        self.uses = set(uses)
         self.calls = []
+        self.imports = set()  # (module, name) pairs of the file's `use` items
+        self.holes = []  # (method, line) of the untranslated calls whose results are parameters `ext<n>`
+        self.is_const = False
+        self.derives = {}  # struct -> traits it derives
+        self.ordered_structs = set()  # structs compared with `<` .. / max / min here
+
+    def conc(self, t):
+        """`Self` replaced by the impl's type"""
+        if isinstance(t, tuple) and t[0] == "struct" and t[1] == "Self":
+            if self.self_t is None:
+                fail(f"{self.fname}:{self.node.line}", "`Self` outside an impl")
+            return self.self_t
+        if isinstance(t, tuple) and t[0] in UNARY:
+            return (t[0], self.conc(t[1]))
+        return t
 
 
 class Infer:
-    def __init__(self, fi, structs, derefs, fns):
+    def __init__(self, fi, structs, derefs, fns, enums=None):
         self.fi, self.structs, self.derefs, self.fns = fi, structs, derefs, fns
+        self.enums = enums or {}
         self.deferred = []  # checks to run after unification
         self.nodes = []
 
@@ -760,19 +1389,13 @@ class Infer:
         return f"{self.fi.fname}:{node.line}"
 
     def conc(self, t):
-        if isinstance(t, tuple) and t[0] == "struct" and t[1] == "Self":
-            if self.fi.self_ty is None:
-                fail(f"{self.fi.fname}:{self.fi.node.line}", "`Self` outside an impl")
-            return T("struct", self.fi.self_ty)
-        if isinstance(t, tuple) and t[0] in ("opt", "res"):
-            return (t[0], self.conc(t[1]))
-        return t
+        return self.fi.conc(t)
 
     def run(self):
         f = self.fi.node
         env = {}
         if f.has_self:
-            env["self"] = T("struct", self.fi.self_ty)
+            env["self"] = T("ref", self.fi.self_t) if getattr(f, "ref_self", False) else self.fi.self_t
         for pn, pt in f.params:
             env[pn] = self.conc(pt)
         self.ret = self.conc(f.ret)
@@ -792,7 +1415,7 @@ class Infer:
                 n.ty = prune(n.ty)
                 return
             fail(self.w(n), "the type of this expression cannot be determined")
-        if t[0] in ("opt", "res"):
+        if t[0] in UNARY:
             self.no_vars(t[1], n)
             n.ty = prune(n.ty)
 
@@ -804,12 +1427,29 @@ class Infer:
                 if s.ann is not None:
                     unify(t, self.conc(s.ann), self.w(s))
                 env[s.name] = t
+                env[("mut", s.name)] = s.mut
+            elif s.kind == "assign":
+                self.place_root(s.place, env, "assignment", index_ok=False)
+                tp = self.expr(s.place, env)
+                if s.op is None:
+                    unify(self.expr(s.e, env), tp, self.w(s))
+                    s.bin = None
+                else:
+                    # `place op= e` is `place = place op e` (the operands are evaluated before the place is written;
+                    # reading the place has no effect and `e` cannot write it: mutation only happens in statements)
+                    s.bin = Node("bin", s.line, op=s.op, l=s.place, r=s.e)
+                    unify(self.expr(s.bin, env), tp, self.w(s))
+            elif s.kind == "exprstmt":
+                self.expr(s.e, env)
+                if not getattr(strip_paren(s.e), "mutcall", False):
+                    fail(self.w(s), "an expression statement that is not the call of a `&mut self` method is outside the translated subset")
             elif s.kind == "letsome":
                 t = self.expr(s.e, env)
                 inner = TVar(where=self.w(s))
-                unify(t, T("opt", inner), self.w(s))
+                unify(t, T("res" if s.is_res else "opt", inner), self.w(s))
                 unify(self.expr(s.orelse, env), self.ret, self.w(s))
                 env[s.name] = inner
+                env[("mut", s.name)] = False
             elif s.kind == "assert":
                 if s.name not in env:
                     fail(self.w(s), f"unknown variable {s.name}")
@@ -825,6 +1465,28 @@ class Infer:
         t = self.expr(b.tail, env)
         b.ty = t
         return t
+
+    def place_root(self, p, env, what, index_ok=True):
+        """`p` is a place that may be written: a `let mut` local, `self` of a `&mut self` method, or fields (and one
+        array element) of these"""
+        n, seen_index = p, False
+        while n.kind in ("field", "index"):
+            if n.kind == "index":
+                if not index_ok or seen_index:
+                    fail(self.w(p), f"{what}: this place expression is outside the translated subset")
+                seen_index = True
+            n = n.e
+        if seen_index and p.kind != "index":
+            fail(self.w(p), f"{what}: a field of an array element is outside the translated subset")
+        if n.kind == "self":
+            if not self.fi.node.mut_self:
+                fail(self.w(p), f"{what} through `self`, which is not `&mut self`")
+            return "self"
+        if n.kind == "var":
+            if not env.get(("mut", n.name), False):
+                fail(self.w(p), f"{what} to `{n.name}`, which is not a `let mut` local")
+            return n.name
+        fail(self.w(p), f"{what}: this place expression is outside the translated subset")
 
     def int_of(self, t, node, what):
         t = prune(t)
@@ -880,7 +1542,13 @@ class Infer:
         if k == "paren":
             return self.expr(e.e, env)
         if k == "field":
-            t = prune(self.expr(e.e, env))
+            t = strip_ref(self.expr(e.e, env))
+            if not isinstance(t, TVar) and t[0] == "range" and e.name in ("start", "end"):
+                return t[1]  # the two public fields of std::ops::Range
+            if not isinstance(t, TVar) and t[0] == "opaque":
+                if (t[1], e.name) not in OPAQUE_FIELDS:
+                    fail(w, f"field `{e.name}` of the opaque type {t[1]} is outside the translated subset")
+                return parse_type_str(OPAQUE_FIELDS[(t[1], e.name)], self.structs, self.enums)
             if isinstance(t, TVar) or t[0] != "struct":
                 fail(w, f"field access on {show(t)}")
             for fn, ft in self.structs[t[1]]:
@@ -888,14 +1556,26 @@ class Infer:
                     e.struct = t[1]
                     return ft
             fail(w, f"struct {t[1]} has no field {e.name}")
-        if k == "deref":
-            if e.e.kind != "self":
-                fail(w, "`*` is only translated on `self`")
+        if k == "index":
             t = prune(self.expr(e.e, env))
-            if t[1] not in self.derefs:
-                fail(w, f"`*self`: no `impl Deref for {t[1]}` returning `&self.0` was found")
-            e.struct = t[1]
-            return self.structs[t[1]][0][1]
+            if isinstance(t, TVar) or t[0] != "array":
+                fail(w, f"indexing of {show(t)} is outside the translated subset (arrays `[T; N]` only)")
+            if e.e.kind != "field":
+                fail(w, "only an array that is a field is indexed in the translated subset")
+            unify(self.expr(e.idx, env), tint("usize"), self.w(e.idx))
+            return t[1]
+        if k == "deref":
+            t = prune(self.expr(e.e, env))
+            if isinstance(t, TVar):
+                fail(w, "`*`: the operand's type must be known here")
+            if t[0] == "ref":
+                e.deref_kind = "ref"  # `*` of a reference: the referent
+                return t[1]
+            if t[0] == "struct" and t[1] in self.derefs:
+                e.deref_kind = "newtype"  # `impl Deref for T` returning `&self.0`
+                e.struct = t[1]
+                return self.structs[t[1]][0][1]
+            fail(w, f"`*` on {show(t)}: neither a reference nor a struct with `impl Deref` returning `&self.0`")
         if k == "bin":
             lt = self.expr(e.l, env)
             rt = self.expr(e.r, env)
@@ -908,8 +1588,14 @@ class Infer:
                 unify(lt, rt, w)
 
                 def chk(lt=lt):
-                    tt = prune(lt)
+                    tt = strip_ref(lt)
                     if isinstance(tt, TVar) and tt.lit:
+                        return
+                    if not isinstance(tt, TVar) and tt[0] == "tparam" and op not in ("==", "!="):
+                        self.need_ord(tt, w, f"`{op}`")
+                        return
+                    if not isinstance(tt, TVar) and tt[0] == "struct" and op not in ("==", "!="):
+                        self.need_derived(tt, w, f"`{op}`", "PartialOrd")
                         return
                     if isinstance(tt, TVar) or tt[0] not in ("int", "bool") or (tt[0] == "bool" and op not in ("==", "!=")):
                         fail(w, f"`{op}` on {show(tt)} is outside the translated subset")
@@ -937,14 +1623,81 @@ class Infer:
                 tt = prune(t)
                 if isinstance(tt, TVar) and tt.lit:
                     return
+                if not isinstance(tt, TVar) and tt[0] == "enum":
+                    e.from_enum = tt[1]  # the discriminant, then an integer cast
+                    return
                 if isinstance(tt, TVar) or tt[0] != "int":
                     fail(w, f"`as` from {show(tt)} is outside the translated subset")
             self.deferred.append(chk)
             return e.to
+        if k == "ref":
+            return T("ref", self.expr(e.e, env))
+        if k == "range":
+            lt = self.expr(e.l, env)
+            unify(lt, self.expr(e.r, env), w)
+            return T("rangeincl" if e.incl else "range", lt)
         if k == "none":
-            return T("opt", TVar(where=w))
+            return T("res" if getattr(e, "result", False) else "opt", TVar(where=w))
         if k == "some":
-            return T("opt", self.expr(e.e, env))
+            return T("res" if getattr(e, "result", False) else "opt", self.expr(e.e, env))
+        if k == "variant":
+            name = e.enum
+            if name == "Self":
+                st = self.fi.self_t
+                if st is None or st[0] not in ("enum", "struct"):
+                    fail(w, f"`Self::{e.name}`: `Self` is not a translated enum or struct")
+                name = st[1]
+            if name in self.structs:
+                callee = self.fns.get((name, e.name))
+                if callee is None or not getattr(callee, "is_const", False):
+                    fail(w, f"`{e.enum}::{e.name}` is not a translated associated constant")
+                e.kind = "constref"
+                return self.call(e, callee, [], env)
+            if name not in self.enums or e.name not in dict(self.enums[name]):
+                fail(w, f"`{e.enum}::{e.name}` is not a variant of a translated enum (constants are outside the translated subset)")
+            e.enum_name = name
+            return T("enum", name)
+        if k == "blockexpr":
+            return self.block(e.b, env)
+        if k == "return":
+            unify(self.expr(e.e, env), self.ret, w)
+            return TVar(where=w)  # diverges: any type
+        if k == "errclosure":
+            fail(w, "a closure outside `map_err(|_| NAME)`")
+        if k == "thunk":
+            fail(w, "a closure outside `or_else(|| expr)`")
+        if k == "match":
+            ts = self.expr(e.scrut, env)
+            res = TVar(where=w)
+            for pat, body in e.arms:
+                if pat.kind == "lit":
+                    unify(self.expr(pat, env), ts, self.w(pat))
+                elif pat.kind == "variant":
+                    unify(self.expr(pat, env), ts, self.w(pat))
+                tb = self.block(body, env)
+                unify(tb, res, self.w(body))
+
+            def chk(ts=ts):
+                tt = prune(ts)
+                pats = [p for p, _ in e.arms]
+                if isinstance(tt, TVar) and tt.lit:
+                    tt = tint("i32")
+                if isinstance(tt, TVar) or tt[0] not in ("int", "enum"):
+                    fail(w, f"`match` on {show(tt)} is outside the translated subset")
+                if tt[0] == "int":
+                    if pats[-1].kind != "wild":
+                        fail(w, "a `match` on an integer needs a final `_` arm in the translated subset")
+                    vals = [p.value for p in pats[:-1]]
+                    if len(set(vals)) != len(vals):
+                        fail(w, "the same literal in two arms")
+                else:
+                    names = [p.name for p in pats if p.kind == "variant"]
+                    if len(set(names)) != len(names):
+                        fail(w, "the same variant in two arms")
+                    if pats[-1].kind != "wild" and set(names) != {v for v, _ in self.enums[tt[1]]}:
+                        fail(w, "the arms do not cover the enum")
+            self.deferred.append(chk)
+            return res
         if k == "structlit":
             name = self.fi.self_ty if e.name == "Self" else e.name
             if name is None or name not in self.structs:
@@ -966,11 +1719,11 @@ class Infer:
             return ta
         if k == "try":
             t = prune(self.expr(e.e, env))
-            if isinstance(t, TVar) or t[0] != "opt":
-                fail(w, f"`?` on {show(t)} (only `?` on an Option is translated)")
+            if isinstance(t, TVar) or t[0] not in ("opt", "res"):
+                fail(w, f"`?` on {show(t)} (only `?` on an Option / a Result is translated)")
             r = prune(self.ret)
-            if r[0] != "opt":
-                fail(w, "`?` on an Option in a function that does not return an Option")
+            if r[0] != t[0]:
+                fail(w, f"`?` on {show(t)} in a function that returns {show(r)}")
             return t[1]
         if k == "call":
             path = "::".join(e.path)
@@ -990,10 +1743,36 @@ class Infer:
                 e.conv = to
                 self.lossless(t, tint(to), e)
                 return tint(to)
+            if (len(e.path) == 1 and e.path[0] in ("max", "min") and e.path[0] in self.fi.uses) or \
+                    (e.path in (["std", "cmp", "max"], ["std", "cmp", "min"])):
+                # std::cmp::max / min on a type with a total order (`Ord`)
+                if len(e.args) != 2:
+                    fail(w, f"{path} takes two arguments")
+                ta = self.expr(e.args[0], env)
+                unify(ta, self.expr(e.args[1], env), w)
+                e.cmpfn = "cmpMax" if e.path[-1] == "max" else "cmpMin"
+
+                def chk(ta=ta):
+                    tt = prune(ta)
+                    if isinstance(tt, TVar) and tt.lit:
+                        return
+                    if not isinstance(tt, TVar) and tt[0] == "tparam":
+                        self.need_ord(tt, w, path, total=True)
+                        return
+                    if not isinstance(tt, TVar) and tt[0] == "struct":
+                        self.need_derived(tt, w, path, "Ord")
+                        return
+                    if isinstance(tt, TVar) or tt[0] != "int":
+                        fail(w, f"`{path}` on {show(tt)} is outside the translated subset")
+                self.deferred.append(chk)
+                return ta
             if len(e.path) == 2 and e.path[0] in ("Self", self.fi.self_ty):
                 key = (self.fi.self_ty, e.path[1])
             elif len(e.path) == 1:
                 key = (None, e.path[0])
+                if key in self.fns and self.fns[key].fname != self.fi.fname and \
+                        (MODULE_OF.get(self.fns[key].fname), e.path[0]) not in self.fi.imports:
+                    fail(w, f"`{path}` is read as the translated function of {self.fns[key].fname}, but the file does not import it from there")
             else:
                 key = None
             if key not in self.fns:
@@ -1004,12 +1783,38 @@ class Infer:
             return self.call(e, callee, e.args, env)
         if k == "method":
             name = e.name
-            rt = self.expr(e.e, env)
-            rp = prune(rt)
+            rt = strip_ref(self.expr(e.e, env))  # auto-deref of the receiver
+            rp = rt
             if name == "try_into":
                 self.noargs(e)
                 self.need_int(rt, e, "try_into()")
-                return T("res", TVar(where=w))
+                tv = TVar(where=w)
+
+                def chk(tv=tv, rt=rt):
+                    tt = prune(tv)
+                    if not isinstance(tt, TVar) and tt[0] == "enum":
+                        # `impl TryFrom<src> for Enum` has to be one of the translated functions
+                        callee = self.fns.get((tt[1], "try_from"))
+                        src = prune(rt)
+                        if isinstance(src, TVar) and src.lit:
+                            unify(src, tint("i32"), w)
+                            src = prune(src)
+                        if callee is None or callee.node.has_self or len(callee.node.params) != 1 or \
+                                prune(callee.conc(callee.node.params[0][1])) != src:
+                            fail(w, f"try_into() from {show(src)} to {tt[1]}: no translated `impl TryFrom<{show(src)}> for {tt[1]}`")
+                        e.enum_callee = callee
+                        self.fi.calls.append(callee.key)
+                    elif isinstance(tt, TVar) or tt[0] != "int":
+                        fail(w, f"try_into() towards {show(tt)} is outside the translated subset")
+                self.deferred.append(chk)
+                return T("res", tv)
+            if name == "map_err":
+                # the error value is not translated, so `map_err` changes nothing
+                if len(e.args) != 1 or e.args[0].kind != "errclosure":
+                    fail(w, "only `map_err(|_| NAME)` is translated")
+                if isinstance(rp, TVar) or rp[0] != "res":
+                    fail(w, f".map_err() on {show(rp)}")
+                return rp
             if name == "into":
                 self.noargs(e)
                 tv = TVar(where=w)
@@ -1020,6 +1825,43 @@ class Infer:
                 if isinstance(rp, TVar) or rp[0] != "res":
                     fail(w, f".ok() on {show(rp)}")
                 return T("opt", rp[1])
+            th = None if isinstance(rp, TVar) else type_head(rp)
+            if th is not None and (th, name) in HOLES and (th, name) not in self.fns:
+                # a call that is not translated: its result is a parameter of the definition
+                for a in e.args:
+                    ta = strip_ref(self.expr(a, env))
+                    if a.kind != "var" or isinstance(ta, TVar) or ta[0] != "opaque":
+                        fail(self.w(a), f"the arguments of the untranslated call `.{name}(..)` have to be parameters of an opaque type")
+                ht = parse_type_str(HOLES[(th, name)], self.structs, self.enums)
+                if ht[0] == "opaque":
+                    e.hole = -1  # an opaque result: nothing to pass on, only further untranslated calls can use it
+                    return ht
+                self.fi.holes.append((name, e.line, ht))
+                e.hole = len(self.fi.holes)
+                return ht
+            if name == "or_else":
+                if isinstance(rp, TVar) or rp[0] != "opt":
+                    fail(w, f".or_else() on {show(rp)}")
+                if len(e.args) != 1 or e.args[0].kind != "thunk":
+                    fail(w, "only `or_else(|| expr)` is translated")
+                e.args[0].ty = rp
+                unify(self.expr(e.args[0].e, env), rp, w)
+                return rp
+            if name == "saturating_sub":
+                if len(e.args) != 1:
+                    fail(w, "saturating_sub takes one argument")
+                nm = self.int_of(rt, e, name)
+                if nm is None or nm.startswith("i"):
+                    fail(w, "saturating_sub is only translated on unsigned types")
+                unify(self.expr(e.args[0], env), rt, w)
+                return rt
+            if name == "unwrap_or":
+                if isinstance(rp, TVar) or rp[0] != "opt":
+                    fail(w, f".unwrap_or() on {show(rp)}")
+                if len(e.args) != 1:
+                    fail(w, "unwrap_or takes one argument")
+                unify(self.expr(e.args[0], env), rp[1], w)
+                return rp[1]
             if name in ("expect", "unwrap"):
                 if isinstance(rp, TVar) or rp[0] not in ("res", "opt"):
                     fail(w, f".{name}() on {show(rp)}")
@@ -1044,32 +1886,114 @@ class Infer:
                 if nm is None or nm.startswith("i"):
                     fail(w, f"{name} is only translated on unsigned types")
                 return tint("u32")
-            if not isinstance(rp, TVar) and rp[0] == "struct" and (rp[1], name) in self.fns:
-                callee = self.fns[(rp[1], name)]
+            if not isinstance(rp, TVar) and rp[0] == "rangeincl" and name in ("start", "end"):
+                self.noargs(e)
+                e.lib = name  # accessors of std::ops::RangeInclusive (references to the bounds)
+                return T("ref", rp[1])
+            if not isinstance(rp, TVar) and rp[0] in ("range", "rangeincl") and name == "contains":
+                # RangeBounds::contains: `start <= x && x < end` / `start <= x && x <= end`
+                if len(e.args) != 1:
+                    fail(w, "contains takes one argument")
+                unify(self.expr(e.args[0], env), T("ref", rp[1]), w)
+                e.lib = "contains"
+                elt = rp[1]
+
+                def chk(elt=elt):
+                    tt = strip_ref(elt)
+                    if isinstance(tt, TVar) and tt.lit:
+                        return
+                    if not isinstance(tt, TVar) and tt[0] == "tparam":
+                        self.need_ord(tt, w, "contains")
+                        return
+                    if isinstance(tt, TVar) or tt[0] != "int":
+                        fail(w, f"`contains` on a range of {show(tt)} is outside the translated subset")
+                self.deferred.append(chk)
+                return BOOL
+            if not isinstance(rp, TVar) and type_head(rp) is not None and (type_head(rp), name) in self.fns:
+                callee = self.fns[(type_head(rp), name)]
                 if not callee.node.has_self:
                     fail(w, f"`{name}` does not take self")
-                return self.call(e, callee, e.args, env)
+                if callee.node.mut_self:
+                    e.root = self.place_root(e.e, env, f"call of the `&mut self` method {name}")
+                    e.mutcall = True
+                if callee.fname != self.fi.fname and callee.fname in MODULE_OF and callee.ns != callee.self_ty and \
+                        (MODULE_OF[callee.fname], callee.ns) not in self.fi.imports:
+                    fail(w, f"`.{name}()` is read as the method of the trait {callee.ns} of {callee.fname}, but the file does not import the trait from there")
+                return self.call(e, callee, e.args, env, recv_t=rp)
             fail(w, f"method `.{name}()` on {show(rp)} is outside the translated subset")
         if k == "str":
             fail(w, "string literal outside `expect(..)`")
         fail(w, f"expression kind {k}")
 
+    def need_derived(self, t, w, what, trait):
+        """comparison of two values of a struct: the struct has to derive the trait (lexicographic order of its
+        integer fields, in declaration order)"""
+        if trait not in self.fi.derives.get(t[1], ()) or any(ft[0] != "int" for _, ft in self.structs[t[1]]):
+            fail(w, f"{what} on {t[1]}, which does not `#[derive({trait})]` over integer fields")
+        self.fi.ordered_structs.add(t[1])
+
+    def need_ord(self, t, w, what, total=False):
+        """a generic parameter used with `<`, `<=`, .. needs `PartialOrd`; with max/min it needs `Ord`"""
+        bounds = self.fi.node.tparams.get(t[1], set())
+        ok = ("Ord" in bounds) if total else bool(bounds & ORD_BOUNDS)
+        if not ok:
+            fail(w, f"{what} on the generic parameter {t[1]}, which is not bounded by {'Ord' if total else 'PartialOrd'}")
+
     def noargs(self, e):
         if e.args:
             fail(self.w(e), f".{e.name}() takes no argument")
 
-    def call(self, e, callee, args, env):
+    def call(self, e, callee, args, env, recv_t=None):
         ps = callee.node.params
         if len(ps) != len(args):
             fail(self.w(e), f"{callee.lean_name}: {len(ps)} arguments expected")
-        cself = callee.self_ty
+        inst = {}
+        for tp, b in callee.node.tparams.items():
+            if b is None:
+                continue
+            # a generic parameter of the callee: instantiated by unification; the instance has to have the order the
+            # bound asks for (an integer type, a struct deriving it, a parameter of the caller with the bound)
+            tv = TVar(where=self.w(e))
+            inst[tp] = tv
 
-        def conc(t):
-            if isinstance(t, tuple) and t[0] == "struct" and t[1] == "Self":
-                return T("struct", cself)
-            if isinstance(t, tuple) and t[0] in ("opt", "res"):
-                return (t[0], conc(t[1]))
-            return t
+            def chk(tv=tv, b=b, tp=tp):
+                tt = prune(tv)
+                total = "Ord" in b
+                if isinstance(tt, TVar):
+                    if tt.lit:
+                        return
+                    fail(self.w(e), f"the type argument {tp} of {callee.lean_name} cannot be determined")
+                if tt[0] == "int":
+                    return
+                if tt[0] == "tparam":
+                    return self.need_ord(tt, self.w(e), callee.lean_name, total=total)
+                if tt[0] == "struct":
+                    return self.need_derived(tt, self.w(e), callee.lean_name, "Ord" if total else "PartialOrd")
+                fail(self.w(e), f"{callee.lean_name} instantiated at {show(tt)} is outside the translated subset")
+            self.deferred.append(chk)
+        if inst:
+            base = callee.conc
+
+            def subst(t):
+                t = prune(t) if not isinstance(t, TVar) else t
+                if isinstance(t, tuple) and t[0] == "tparam" and t[1] in inst:
+                    return inst[t[1]]
+                if isinstance(t, tuple) and t[0] in UNARY:
+                    return (t[0], subst(t[1]))
+                return t
+
+            def conc(t):
+                return subst(base(t))
+            if recv_t is not None and callee.self_t is not None:
+                unify(recv_t, subst(callee.self_t), self.w(e))  # the receiver fixes the parameters of a generic impl
+            for a, (pn, pt) in zip(args, ps):
+                unify(self.expr(a, env), conc(pt), self.w(a))
+            e.callee = callee
+            self.fi.calls.append(callee.key)
+            return conc(callee.node.ret)
+        if callee.holes or any(strip_ref(callee.conc(pt))[0] == "opaque" for _, pt in ps):
+            fail(self.w(e), f"call of {callee.lean_name}, which has opaque parameters / untranslated calls, is outside the translated subset")
+        conc = callee.conc
         for a, (pn, pt) in zip(args, ps):
             unify(self.expr(a, env), conc(pt), self.w(a))
         e.callee = callee
@@ -1110,9 +2034,17 @@ def lty(t):
         return "Bool"
     if t[0] == "struct":
         return t[1]
-    if t[0] in ("opt", "res"):
+    if t[0] == "ref":
+        return lty(t[1])  # a shared reference to a value is the value
+    if t[0] in UNARY:
         inner = lty(t[1])
-        return f"Option {inner}" if " " not in inner else f"Option ({inner})"
+        head = {"opt": "Option", "res": "Option", "range": "Range", "rangeincl": "RangeInclusive"}[t[0]]
+        return f"{head} {inner}" if " " not in inner else f"{head} ({inner})"
+    if t[0] in ("tparam", "enum"):
+        return t[1]
+    if t[0] == "array":
+        inner = lty(t[1])
+        return f"Vector {inner if ' ' not in inner else '(' + inner + ')'} {t[2]}"
     if t[0] == "externret":
         return " × ".join("Int" for _ in EXTERNS[t[1]][0])
     raise AssertionError(t)
@@ -1144,7 +2076,7 @@ class Gen:
         return f'"{owner}{self.fi.node.name}:{e.line}"'
 
     def tyname(self, t):
-        t = prune(t)
+        t = strip_ref(t)  # the receiver of a method may be a reference (auto-deref)
         assert t[0] == "int", t
         return "." + t[1]
 
@@ -1153,32 +2085,66 @@ class Gen:
 
     def RET(self, depth):
         def k(term):
-            return f"{self.ind(depth)}.ok {atom(term)}"
+            return f"{self.ind(depth)}{self.ret_term(term)}"
         k.is_ret = True
         return k
+
+    def PURE_RET(self, depth):
+        """the value of a sub-computation that flows back into an enclosing expression (never the function's result)"""
+        def k(term):
+            return f"{self.ind(depth)}.ok {atom(term)}"
+        return k
+
+    def has_return(self, b):
+        def walk(n):
+            if isinstance(n, Node):
+                if n.kind in ("return", "try", "letsome"):
+                    return True
+                return any(walk(v) for key, v in n.__dict__.items() if key not in ("ty", "callee", "bin"))
+            if isinstance(n, (list, tuple)):
+                return any(walk(x) for x in n)
+            return False
+        return walk(b)
+
+    def ret_term(self, term):
+        """the function returns `term`; a `&mut self` method also returns the state it leaves in `self`"""
+        if self.fi.node.mut_self:
+            return f".ok ({term}, self)"
+        return f".ok {atom(term)}"
 
     def gen_fn(self):
         f = self.fi.node
         params = []
-        if f.has_self:
-            params.append(f"(self : {self.fi.self_ty})")
+        for tp in f.tparams:
+            if f.tparams[tp] is None:
+                continue  # only occurs inside opaque types
+            # a generic parameter bounded by PartialOrd / Ord: an abstract carrier with decidable `≤` and `<`
+            # (the trait's comparison operators); nothing else is known about it
+            if tp in LEAN_KEYWORDS or not re.fullmatch(r"[A-Z][A-Za-z0-9]*", tp):
+                fail(f"{self.fi.fname}:{f.line}", f"generic parameter name {tp}")
+            params.append(f"{{{tp} : Type}} [LE {tp}] [LT {tp}] [DecidableLE {tp}] [DecidableLT {tp}]")
+        if f.has_self and strip_ref(self.fi.self_t)[0] != "opaque":
+            st = lty(self.fi.self_t)
+            params.append(f"(self : {st})")
         for pn, pt in f.params:
-            if re.fullmatch(r"tmp\d+", pn):
+            if re.fullmatch(r"(tmp|ext)\d+", pn):
                 fail(f"{self.fi.fname}:{f.line}", f"parameter name {pn} clashes with the translator's temporaries")
+            if strip_ref(self.conc(pt))[0] == "opaque":
+                continue  # never looked into
             params.append(f"({lname(pn)} : {lty(self.conc(pt))})")
+        for n, (hn, hl, ht) in enumerate(self.fi.holes):
+            params.append(f"(ext{n + 1} : {lty(ht)})")
         self.ret_ty = self.conc(f.ret)
         rt = lty(self.ret_ty)
+        if f.mut_self:
+            rt = f"{'(' + rt + ')' if ' ' in rt else rt} × {lty(self.fi.self_t)}"
         rt = f"({rt})" if " " in rt else rt
         head = f"def {lname(self.fi.lean_name)} {' '.join(params)} : R {rt} :=".replace("  ", " ")
         body = self.block(f.body, self.RET(1), 1)
         return head + "\n" + body
 
     def conc(self, t):
-        if isinstance(t, tuple) and t[0] == "struct" and t[1] == "Self":
-            return T("struct", self.fi.self_ty)
-        if isinstance(t, tuple) and t[0] in ("opt", "res"):
-            return (t[0], self.conc(t[1]))
-        return t
+        return self.fi.conc(t)
 
     def none_result(self, depth):
         return f"{self.ind(depth)}.ok none"
@@ -1188,15 +2154,24 @@ class Gen:
         def go(i):
             if i == len(b.stmts):
                 if b.tail.kind == "return":
-                    return self.cg(b.tail.e, self.RET(depth), depth)
-                return self.cg(b.tail, k, depth)
+                    return self.cg_root(b.tail.e, self.RET(depth), depth)
+                return self.cg_root(b.tail, k, depth)
             s = b.stmts[i]
             if re.fullmatch(r"tmp\d+", getattr(s, "name", "")):
                 fail(f"{self.fi.fname}:{s.line}", f"local name {s.name} clashes with the translator's temporaries")
             if s.kind == "let":
                 def k2(term, s=s):
                     return f"{self.ind(depth)}let {lname(s.name)} := {term}\n" + go(i + 1)
-                return self.cg(s.e, k2, depth)
+                return self.cg_root(s.e, k2, depth)
+            if s.kind == "exprstmt":
+                return self.cg_root(s.e, lambda term: go(i + 1), depth)
+            if s.kind == "assign":
+                self.no_mutation_here(s)
+
+                def k2(term, s=s):
+                    root, new = self.place_update(s.place, term)
+                    return f"{self.ind(depth)}let {lname(root)} := {new}\n" + go(i + 1)
+                return self.cg(s.bin if s.bin is not None else s.e, k2, depth)
             if s.kind == "letsome":
                 def k2(term, s=s):
                     return (f"{self.ind(depth)}match {term} with\n"
@@ -1211,6 +2186,53 @@ class Gen:
             raise AssertionError(s.kind)
         return go(0)
 
+    # mutation -------------------------------------------------------------------------------------
+    # State is passed by rebinding: `let self := ..` / `let x := ..` shadows the previous value for the rest of the
+    # straight line.  That is only right where the rest of the computation is textually below, so a write (an
+    # assignment, the call of a `&mut self` method) is accepted only as a statement / at the root of a `let` or of a
+    # tail expression, and not inside a branch or operand whose value flows back into an enclosing expression.
+    closed = 0
+    allow_mut = None
+
+    def cg_root(self, e, k, depth):
+        """`e` is the whole expression of a statement: the one place where a `&mut self` call may stand"""
+        r = strip_paren(e)
+        if getattr(r, "mutcall", False):
+            self.allow_mut = r
+        return self.cg(e, k, depth)
+
+    def no_mutation_here(self, node):
+        if self.closed:
+            fail(f"{self.fi.fname}:{node.line}", "a write inside an `if` / `&&` / `||` whose value is used by an enclosing "
+                 "expression is outside the translated subset")
+
+    def place_update(self, p, new):
+        """(root variable, its new value) after writing `new` to the place `p`"""
+        if p.kind in ("self", "var"):
+            return ("self" if p.kind == "self" else p.name), new
+        base = self.pure(p.e)
+        if base is None:
+            fail(f"{self.fi.fname}:{p.line}", "this place expression is outside the translated subset")
+        if p.kind == "field":
+            return self.place_update(p.e, f"{{ {base} with {field_name(p.name)} := {new} }}")
+        if p.kind == "index":
+            return self.place_update(p.e, f"{atom(base)}.setIfInBounds {atom(p.idx_term)}.toNat {atom(new)}")
+        raise AssertionError(p.kind)
+
+    def cg_index(self, e, k, depth):
+        """`base[idx]`: the index is evaluated, then checked against the array length (a panic outcome)"""
+        I = self.ind(depth)
+        base = self.pure(e.e)
+        if base is None:
+            fail(f"{self.fi.fname}:{e.line}", "only an array that is a field is indexed in the translated subset")
+
+        def ki(i):
+            e.idx_term = i
+            v = self.fresh()
+            return (f"{I}match {atom(base)}[{atom(i)}.toNat]? with\n{I}| none => .error (.panic \"index out of bounds\")\n"
+                    f"{I}| some {v} =>\n" + k(v))
+        return self.cg(e.idx, ki, depth)
+
     # pure terms -----------------------------------------------------------------------------------
     def pure(self, e):
         """Lean term for `e` if its evaluation has no outcome but a value, else None"""
@@ -1223,13 +2245,36 @@ class Gen:
             return lname(e.name)
         if k == "self":
             return "self"
-        if k == "paren":
+        if k in ("paren", "ref"):
             return self.pure(e.e)
+        if k == "range":
+            l, r = self.pure(e.l), self.pure(e.r)
+            if l is None or r is None:
+                return None
+            return self.range_term(e, l, r)
+        if k == "call" and getattr(e, "cmpfn", None):
+            l, r = self.pure(e.args[0]), self.pure(e.args[1])
+            if l is None or r is None:
+                return None
+            return f"{e.cmpfn} {atom(l)} {atom(r)}"
+        if k == "method" and getattr(e, "lib", None):
+            b = self.pure(e.e)
+            if b is None:
+                return None
+            if e.lib in ("start", "end"):
+                return f"{atom(b)}.{lname(e.lib)}"
+            a = self.pure(e.args[0])
+            if a is None:
+                return None
+            return self.contains_term(e, b, a)
         if k == "field":
             b = self.pure(e.e)
             return None if b is None else f"{atom(b)}.{field_name(e.name)}"
         if k == "deref":
-            return f"self.{field_name('0')}"
+            b = self.pure(e.e)
+            if b is None:
+                return None
+            return b if e.deref_kind == "ref" else f"{atom(b)}.{field_name('0')}"
         if k == "none":
             return "none"
         if k == "some":
@@ -1249,7 +2294,23 @@ class Gen:
             b = self.pure(e.e)
             if b is None:
                 return None
-            return f"wrap {self.tyname(e.to)} {atom(b)}"
+            return self.cast_term(e, b)
+        if k == "variant":
+            return f"{e.enum_name}.{lname(e.name)}"
+        if k == "method" and getattr(e, "hole", None):
+            return "()" if e.hole == -1 else f"ext{e.hole}"
+        if k == "blockexpr" and not e.b.stmts and e.b.tail.kind != "return":
+            return self.pure(e.b.tail)
+        if k == "method" and e.name == "unwrap_or":
+            a, b = self.pure(e.e), self.pure(e.args[0])
+            return None if a is None or b is None else f"Option.getD {atom(a)} {atom(b)}"
+        if k == "method" and e.name == "saturating_sub":
+            a, b = self.pure(e.e), self.pure(e.args[0])
+            return None if a is None or b is None else f"saturatingSub {self.tyname(e.ty)} {atom(a)} {atom(b)}"
+        if k == "method" and e.name == "map_err":
+            return self.pure(e.e)
+        if k == "method" and e.name == "try_into" and getattr(e, "enum_callee", None):
+            return None
         if k == "call" and getattr(e, "conv", None):
             return self.pure(e.args[0])
         if k == "method" and e.name == "into":
@@ -1299,6 +2360,18 @@ class Gen:
             return f"if {c} then {a} else {b}"
         return None
 
+    def cast_term(self, e, a):
+        if getattr(e, "from_enum", None):
+            return f"wrap {self.tyname(e.to)} ({e.from_enum}.discr {atom(a)})"
+        return f"wrap {self.tyname(e.to)} {atom(a)}"
+
+    def range_term(self, e, l, r):
+        return f"{'RangeInclusive' if e.incl else 'Range'}.mk {atom(l)} {atom(r)}"
+
+    def contains_term(self, e, recv, x):
+        head = "RangeInclusive" if strip_ref(e.e.ty)[0] == "rangeincl" else "Range"
+        return f"{head}.contains {atom(recv)} {atom(x)}"
+
     def unsigned_only(self, e):
         t = prune(e.ty)
         if t[0] != "int" or t[1].startswith("i"):
@@ -1317,8 +2390,16 @@ class Gen:
             return k(p)
         kind = e.kind
         I = self.ind(depth)
-        if kind == "paren":
+        if kind in ("paren", "ref"):
             return self.cg(e.e, k, depth)
+        if kind == "range":
+            return self.cg(e.l, lambda l: self.cg(e.r, lambda r: k(self.range_term(e, l, r)), depth), depth)
+        if kind == "call" and getattr(e, "cmpfn", None):
+            return self.cg_args(e.args, lambda ts: k(f"{e.cmpfn} {atom(ts[0])} {atom(ts[1])}"), depth)
+        if kind == "method" and getattr(e, "lib", None):
+            if e.lib in ("start", "end"):
+                return self.cg(e.e, lambda b: k(f"{atom(b)}.{lname(e.lib)}"), depth)
+            return self.cg(e.e, lambda b: self.cg(e.args[0], lambda a: k(self.contains_term(e, b, a)), depth), depth)
         if kind == "bin":
             op = e.op
             if op in ("&&", "||"):
@@ -1327,7 +2408,11 @@ class Gen:
                     v = self.fresh()
                     short = "false" if op == "&&" else "true"
                     cond = l if op == "&&" else f"!{atom(l)}"
-                    inner = self.cg(e.r, self.RET(depth + 2), depth + 2)
+                    if self.has_return(e.r):
+                        fail(f"{self.fi.fname}:{e.line}", f"`?` / `return` in the right operand of `{op}`")
+                    self.closed += 1
+                    inner = self.cg(e.r, self.PURE_RET(depth + 2), depth + 2)
+                    self.closed -= 1
                     return (f"{I}bnd (if {cond} then\n{inner}\n{I}  else .ok {short}) fun {v} =>\n" + k(v))
                 return self.cg(e.l, kl, depth)
 
@@ -1356,12 +2441,14 @@ class Gen:
                 v = self.fresh()
                 return f"{I}bnd (neg {self.tyname(e.ty)} {self.site(e)} {atom(a)}) fun {v} =>\n" + k(v)
             return self.cg(e.e, k1, depth)
+        if kind == "deref":
+            return self.cg(e.e, lambda a: k(a if e.deref_kind == "ref" else f"{atom(a)}.{field_name('0')}"), depth)
         if kind in ("not", "cast", "some", "field"):
             def k1(a):
                 if kind == "not":
                     return k(f"!{atom(a)}")
                 if kind == "cast":
-                    return k(f"wrap {self.tyname(e.to)} {atom(a)}")
+                    return k(self.cast_term(e, a))
                 if kind == "some":
                     return k(f"some {atom(a)}")
                 return k(f"{atom(a)}.{field_name(e.name)}")
@@ -1379,7 +2466,7 @@ class Gen:
         if kind == "try":
             def k1(a):
                 v = self.fresh()
-                return f"{I}match {a} with\n{I}| none => .ok none\n{I}| some {v} =>\n" + k(v)
+                return f"{I}match {a} with\n{I}| none => {self.ret_term('none')}\n{I}| some {v} =>\n" + k(v)
             return self.cg(e.e, k1, depth)
         if kind == "if":
             def kc(c):
@@ -1387,8 +2474,13 @@ class Gen:
                     return (f"{I}if {c} then\n" + self.block(e.a, self.RET(depth + 1), depth + 1) + f"\n{I}else\n"
                             + self.block(e.b, self.RET(depth + 1), depth + 1))
                 v = self.fresh()
-                return (f"{I}bnd (if {c} then\n" + self.block(e.a, self.RET(depth + 2), depth + 2) + f"\n{I}  else\n"
-                        + self.block(e.b, self.RET(depth + 2), depth + 2) + f") fun {v} =>\n" + k(v))
+                self.closed += 1
+                if self.has_return(e.a) or self.has_return(e.b):
+                    fail(f"{self.fi.fname}:{e.line}", "`return` inside an `if` whose value is used by an enclosing expression")
+                txt = (f"{I}bnd (if {c} then\n" + self.block(e.a, self.PURE_RET(depth + 2), depth + 2) + f"\n{I}  else\n"
+                       + self.block(e.b, self.PURE_RET(depth + 2), depth + 2) + f") fun {v} =>\n")
+                self.closed -= 1
+                return txt + k(v)
             return self.cg(e.c, kc, depth)
         if kind == "call":
             if getattr(e, "conv", None):
@@ -1396,6 +2488,94 @@ class Gen:
             if getattr(e, "extern", None):
                 return self.cg_args(e.args, lambda terms: k("(" + ", ".join(terms) + ")"), depth)
             return self.cg_call(e, e.callee, None, e.args, k, depth)
+        if kind == "return":
+            return self.cg_root(e.e, self.RET(depth), depth)
+        if kind == "constref":
+            return self.cg_call(e, e.callee, None, [], k, depth)
+        if kind == "method" and e.name == "unwrap_or":
+            return self.cg(e.e, lambda a: self.cg(e.args[0], lambda b: k(f"Option.getD {atom(a)} {atom(b)}"), depth), depth)
+        if kind == "method" and e.name == "saturating_sub":
+            return self.cg(e.e, lambda a: self.cg(e.args[0], lambda b: k(f"saturatingSub {self.tyname(e.ty)} {atom(a)} {atom(b)}"), depth), depth)
+        if kind == "method" and e.name == "or_else":
+            # the closure runs only on `None`
+            th = e.args[0].e
+            if self.has_return(th):
+                fail(f"{self.fi.fname}:{e.line}", "`?` / `return` inside a closure")
+
+            def ko(a):
+                v, v2 = self.fresh(), self.fresh()
+                self.closed += 1
+                inner = self.cg(th, self.PURE_RET(depth + 2), depth + 2)
+                self.closed -= 1
+                return (f"{I}bnd (match {a} with\n{I}  | some {v2} => .ok (some {v2})\n{I}  | none =>\n{inner}) fun {v} =>\n" + k(v))
+            return self.cg(e.e, ko, depth)
+        if kind == "blockexpr":
+            if not e.b.stmts:
+                return self.cg(e.b.tail, k, depth)
+            # the names bound inside the block must not reach the continuation: the block is a closed sub-computation
+            if self.has_return(e.b):
+                fail(f"{self.fi.fname}:{e.line}", "`?` / `return` inside a block expression with statements")
+            v = self.fresh()
+            self.closed += 1
+            txt = f"{I}bnd (\n" + self.block(e.b, self.PURE_RET(depth + 2), depth + 2) + f") fun {v} =>\n"
+            self.closed -= 1
+            return txt + k(v)
+        if kind == "match" and not getattr(k, "is_ret", False) and any(b.stmts for _, b in e.arms) and not getattr(e, "closed_done", False):
+            # arms that bind names: a closed sub-computation, as above
+            if self.has_return(e):
+                fail(f"{self.fi.fname}:{e.line}", "`?` / `return` inside a `match` with statements whose value is used by an enclosing expression")
+            v = self.fresh()
+            e.closed_done = True
+            self.closed += 1
+            txt = f"{I}bnd (\n" + self.cg(e, self.PURE_RET(depth + 2), depth + 2) + f") fun {v} =>\n"
+            self.closed -= 1
+            e.closed_done = False
+            return txt + k(v)
+        if kind == "match":
+            def ks(v):
+                is_int = prune(e.scrut.ty)[0] == "int"
+                out = []
+                for n, (pat, body) in enumerate(e.arms):
+                    arm = self.block(body, k, depth + 1)
+                    if is_int:
+                        if pat.kind == "wild":
+                            out.append(f"{I}else\n{arm}")
+                        else:
+                            out.append(f"{I}{'if' if n == 0 else 'else if'} {v} = {lit(pat.value)} then\n{arm}")
+                    else:
+                        pt = "_" if pat.kind == "wild" else f".{lname(pat.name)}"
+                        out.append(f"{I}| {pt} =>\n{arm}")
+                if is_int:
+                    if len(e.arms) == 1:
+                        return self.block(e.arms[0][1], k, depth)
+                    return "\n".join(out)
+                return f"{I}match {v} with\n" + "\n".join(out)
+            return self.cg(e.scrut, ks, depth)
+        if kind == "index":
+            return self.cg_index(e, k, depth)
+        if kind == "method" and getattr(e, "mutcall", False):
+            # `place.f(args)` with `f(&mut self, ..)`: the callee returns (result, new state); the place is rebound
+            if self.allow_mut is not e:
+                fail(f"{self.fi.fname}:{e.line}", f"the call of the `&mut self` method {e.name} inside a larger expression is "
+                     "outside the translated subset (bind its result with `let` first)")
+            self.allow_mut = None
+            self.no_mutation_here(e)
+            callee = e.callee
+            fn = callee.lean_name if callee.ns == self.fi.ns else f"{callee.ns}.{callee.lean_name}"
+
+            def with_recv(recv):
+                def kk(terms):
+                    v = self.fresh()
+                    root, new = self.place_update(e.e, f"{v}.2")
+                    call = " ".join([lname(fn), atom(recv)] + [atom(t) for t in terms])
+                    return f"{I}bnd ({call}) fun {v} =>\n{I}let {lname(root)} := {new}\n" + k(f"{v}.1")
+                return self.cg_args(e.args, kk, depth)
+            if e.e.kind == "index":
+                return self.cg_index(e.e, with_recv, depth)
+            recv = self.pure(e.e)
+            if recv is None:
+                fail(f"{self.fi.fname}:{e.line}", "this receiver is outside the translated subset")
+            return with_recv(recv)
         if kind == "method":
             name = e.name
             if name in ("expect", "unwrap"):
@@ -1403,8 +2583,16 @@ class Gen:
                     v = self.fresh()
                     return f"{I}match {a} with\n{I}| none => .error (.panic \"{e.msg}\")\n{I}| some {v} =>\n" + k(v)
                 return self.cg(e.e, k1, depth)
-            if name in ("ok", "into"):
+            if name in ("ok", "into", "map_err"):
                 return self.cg(e.e, k, depth)
+            if name == "try_into" and getattr(e, "enum_callee", None):
+                callee = e.enum_callee
+                fn = callee.lean_name if callee.ns == self.fi.ns else f"{callee.ns}.{callee.lean_name}"
+
+                def kt(a):
+                    v = self.fresh()
+                    return f"{I}bnd ({lname(fn)} {atom(a)}) fun {v} =>\n" + k(v)
+                return self.cg(e.e, kt, depth)
             if name == "try_into":
                 return self.cg(e.e, lambda a: k(f"tryInto {self.tyname(prune(e.ty)[1])} {atom(a)}"), depth)
             if name in ("trailing_zeros", "count_ones"):
@@ -1443,7 +2631,7 @@ class Gen:
         def kk(terms):
             fn = callee.lean_name if callee.ns == self.fi.ns else f"{callee.ns}.{callee.lean_name}"
             call = " ".join([lname(fn)] + [atom(t) for t in terms])
-            if getattr(k, "is_ret", False) and prune(e.ty) == prune(self.ret_ty):
+            if getattr(k, "is_ret", False) and prune(e.ty) == prune(self.ret_ty) and not self.fi.node.mut_self:
                 return f"{I}{call}"
             v = self.fresh()
             return f"{I}bnd ({call}) fun {v} =>\n" + k(v)
@@ -1477,7 +2665,7 @@ def translate(repo, overrides):
     def path_of(rel):
         return overrides.get(rel, os.path.join(repo, rel))
 
-    toks_of = {}
+    toks_of, raw_of = {}, {}
 
     def toks(rel):
         if rel not in toks_of:
@@ -1486,24 +2674,158 @@ def translate(repo, overrides):
                 src = open(p, encoding="utf-8").read()
             except OSError as ex:
                 fail(rel, f"cannot read {p}: {ex}")
-            toks_of[rel] = strip_attrs(tokenize(src, rel))
+            raw_of[rel] = tokenize(src, rel)
+            toks_of[rel] = strip_attrs(raw_of[rel])
         return toks_of[rel]
 
-    structs, struct_src, derefs = {}, {}, set()
+    enums, enum_src = {}, {}
+    for rel, name in ENUMS:
+        enums[name], line = find_enum(toks(rel), rel, name)
+        enum_src[name] = f"{rel}:{line}"
+
+    structs, struct_src, derefs, derives = {}, {}, set(), {}
     for rel, name in STRUCTS:
-        fields, line = find_struct(toks(rel), rel, name)
+        fields, line = find_struct(toks(rel), rel, name, known=set(structs), known_enums=set(enums))
         structs[name] = fields
         struct_src[name] = f"{rel}:{line}"
-        if len(fields) == 1 and fields[0][0] == "0" and has_deref_to_field0(toks(rel), name, fields[0][1][1]):
+        derives[name] = derives_of(raw_of[rel], name)
+        if name in enums:
+            fail(rel, f"{name} is both a struct and an enum")
+        if len(fields) == 1 and fields[0][0] == "0" and fields[0][1][0] == "int" and has_deref_to_field0(toks(rel), name, fields[0][1][1]):
             derefs.add(name)
 
     fns, order = {}, []
-    for rel, impl_ty, trait, names in TARGETS:
-        tk = toks(rel)
-        where = find_impl_fns(tk, rel, impl_ty, trait, names)
-        ns = impl_ty if impl_ty else FREE_NS[rel]
+    for target in TARGETS:
+        header, tparams, self_t, aliases, assoc = None, {}, None, set(), {}
+        if target[0] == "const":
+            # `const NAME: TYPE = EXPR;` inside `impl TYPE`: a definition without parameters (Rust evaluates it at
+            # compile time, where a panic is a compile error; here the panic outcome is explicit and proved unreachable)
+            _, rel, impl_ty, names = target
+            tk = toks(rel)
+            for n in names:
+                p = Parser(tk, rel, set(structs), uses=std_uses(tk), enums=set(enums))
+                p.i = find_const(tk, rel, impl_ty, n)
+                line = p.eat("const").line
+                p.ident()
+                p.eat(":")
+                ret = p.type_()
+                p.eat("=")
+                body = p.expr()
+                p.eat(";")
+                node = Node("fn", line, name=n, params=[], has_self=False, mut_self=False, ret=ret,
+                            body=Node("block", line, stmts=[], tail=body), tparams={})
+                key = (impl_ty, n)
+                if key in fns:
+                    fail(f"{rel}:{line}", f"{impl_ty}::{n} is defined twice")
+                fi = FnInfo(key, impl_ty, n, node, impl_ty, rel, uses=std_uses(tk))
+                fi.is_const = True
+                fi.derives = derives
+                fns[key] = fi
+                order.append(key)
+            continue
+        if target[0] == "closure":
+            _, rel, outer, adaptor, occ, pty, rty, ns, lean_name = target
+            tk = toks(rel)
+            uses = std_uses(tk)
+            o = find_impl_fns(tk, rel, None, None, [outer])[outer]
+            j = o
+            while tk[j].text != "{" or False:
+                if tk[j].text == "(":
+                    j = matching(tk, j)
+                elif tk[j].kind == "eof":
+                    fail(rel, f"fn {outer}: no body")
+                j += 1
+            end = matching(tk, j)
+            texts = [x.text for x in tk]
+            hits = [i for i in range(j, end) if texts[i : i + 4] == [".", adaptor, "(", "|"] and tk[i + 4].kind == "id" and texts[i + 5] == "|"]
+            if len(hits) <= occ:
+                fail(rel, f"fn {outer}: closure argument of `.{adaptor}(..)` number {occ} not found")
+            i = hits[occ]
+            p = Parser(tk, rel, set(structs), uses=uses, enums=set(enums))
+            p.i = i + 6
+            body = p.expr()
+            if p.i != matching(tk, i + 2):
+                fail(p.where(), f"the closure is not the only argument of `.{adaptor}(..)`")
+            blk = body.b if body.kind == "blockexpr" else Node("block", body.line, stmts=[], tail=body)
+            node = Node("fn", tk[i + 3].line, name=lean_name, params=[(texts[i + 4], parse_type_str(pty, structs, enums))], has_self=False,
+                        mut_self=False, ret=parse_type_str(rty, structs, enums), body=blk, tparams={})
+            key = (ns, lean_name)
+            if key in fns:
+                fail(rel, f"{ns}.{lean_name} is defined twice")
+            fi = FnInfo(key, ns, lean_name, node, None, rel, uses=uses)
+            fi.derives = derives
+            fi.closure_of = (outer, adaptor)
+            fns[key] = fi
+            order.append(key)
+            continue
+        if target[0] == "macro":
+            _, rel, macro, arg, hdr, ns, names = target
+            header = hdr.split()
+            tk = expand_macro(toks(rel), rel, macro, arg)
+            uses = std_uses(toks(rel))
+            impl_ty, trait = header[-1], None
+            if impl_ty in enums:
+                self_t = T("enum", impl_ty)
+            elif impl_ty not in structs:
+                fail(rel, f"impl header `{hdr}`: {impl_ty} is not a translated type")
+        elif target[0].startswith("impl "):
+            # a generic impl: `impl < generics > [Trait [< .. >] for] Type`, the header given in full
+            hdr, rel, ns, names = target
+            header = hdr.split()
+            tk = toks(rel)
+            uses = std_uses(tk)
+            for alias, path in ALIASES.get(rel, {}).items():
+                if alias in header:
+                    if not has_use_as(tk, path, alias):
+                        fail(rel, f"`{alias}::` is read as `{path}::`, but the file has no `use {path} as {alias};`")
+                    aliases.add(alias)
+            hp = Parser([Tok("op" if not re.match(r"\w", x) else "id", x, 0) for x in header] + [Tok("eof", "", 0)], rel + " (TARGETS)", set(structs), uses=uses, enums=set(enums), aliases=aliases)
+            hp.eat("impl")
+            if hp.at("<"):
+                hp.generics()
+            if "for" in header:
+                hp.i = header.index("for") + 1
+            self_t = hp.type_()
+            if hp.peek().kind != "eof":
+                fail(rel, f"impl header `{hdr}`: unexpected `{hp.peek().text}`")
+            tparams = hp.tparams
+            impl_ty = type_head(self_t)
+            if impl_ty is None:
+                fail(rel, f"impl header `{hdr}`: the type is outside the translated subset")
+            trait = None
+        else:
+            rel, impl_ty, trait, names = target
+            tk = toks(rel)
+            uses = std_uses(tk)
+            ns = impl_ty if impl_ty else FREE_NS[rel]
+            if impl_ty in enums:
+                self_t = T("enum", impl_ty)
+        where = find_impl_fns(tk, rel, impl_ty, trait, names, header)
+        if header and target[0] != "macro":
+            # associated types of the impl: `type NAME [<generics>] = TYPE;` (for `-> Self::NAME<..>`)
+            texts = [x.text for x in tk]
+            hb = [i for i in range(len(texts) - len(header)) if texts[i : i + len(header) + 1] == header + ["{"]]
+            for b in hb:
+                o = b + len(header)
+                end, depth, i = matching(tk, o), 0, b + len(header) + 1
+                while i < end:
+                    if texts[i] == "{":
+                        depth += 1
+                    elif texts[i] == "}":
+                        depth -= 1
+                    elif depth == 0 and texts[i] == "type" and tk[i + 1].kind == "id":
+                        ap = Parser(tk, rel, set(structs), tparams=tparams, uses=uses, enums=set(enums), aliases=aliases)
+                        ap.i = i + 2
+                        ap.skip_generic_args()
+                        if ap.at("="):
+                            ap.i += 1
+                            try:
+                                assoc[texts[i + 1]] = ap.type_()
+                            except Fail:
+                                pass  # an associated type outside the subset: an error only if a translated function uses it
+                    i += 1
         for n in names:
-            p = Parser(tk, rel, set(structs))
+            p = Parser(tk, rel, set(structs), tparams=tparams, uses=uses, enums=set(enums), aliases=aliases, assoc=assoc)
             p.i = where[n]
             node = p.fn()
             if node.name != n:
@@ -1511,12 +2833,26 @@ def translate(repo, overrides):
             key = (impl_ty, n)
             if key in fns:
                 fail(f"{rel}:{node.line}", f"{impl_ty}::{n} is defined twice (inherent and trait impl)")
-            fi = FnInfo(key, ns, n, node, impl_ty, rel)
+            fi = FnInfo(key, ns, n, node, impl_ty, rel, self_t=self_t, uses=uses)
+            fi.derives = derives
             fns[key] = fi
             order.append(key)
 
+    for key, (src, how) in CLOSURE_ELEM.items():
+        if key in fns:
+            if src not in fns:
+                fail(fns[key].fname, f"{key[1]}: {src[1]} is not translated")
+            want = prune(fns[src].conc(fns[src].node.ret))
+            if how == "some":
+                if want[0] != "opt":
+                    fail(fns[key].fname, f"{key[1]}: {src[1]} does not return an Option")
+                want = want[1]
+            have = prune(fns[key].node.params[0][1])
+            if have != want:
+                fail(f"{fns[key].fname}:{fns[key].node.line}", f"the closure's parameter is assumed to be {show(have)}, but {src[0]}::{src[1]} yields {show(want)}")
     for key in order:
-        Infer(fns[key], structs, derefs, fns).run()
+        fns[key].imports = file_uses(toks(fns[key].fname))
+        Infer(fns[key], structs, derefs, fns, enums).run()
 
     # dependency order (no recursion)
     done, emitted = set(), []
@@ -1533,7 +2869,7 @@ def translate(repo, overrides):
     for key in order:
         visit(key, [])
 
-    files = sorted({rel for rel, *_ in TARGETS} | {rel for rel, _ in STRUCTS})
+    files = sorted({fi.fname for fi in fns.values()} | {rel for rel, _ in STRUCTS} | {rel for rel, _ in ENUMS})
     L = ["/-", "GENERATED by translators/rs2lean.py from"]
     L += [f"  {f}" for f in files]
     L += ["— do not edit.",
@@ -1542,20 +2878,68 @@ def translate(repo, overrides):
           "operations of type T (overflow / zero divisor = explicit `.error` outcome), `Int.tdiv/Int.tmod` are `/` `%` by",
           "a non-zero literal (cannot fail), `wrap .T` is `as T`, `tryInto .T` is `try_into()`, `T::from`/`into()` are",
           "value-preserving and leave no trace, `?` on an Option is the `none => .ok none` arm, `expect`/`assert!` the",
-          "`.error (.panic ..)` arm.  OH/Props/Arith*.lean ties these definitions to the hand-written models.",
+          "`.error (.panic ..)` arm.  A `&mut self` method is `self → args → R (result × self)` (writes rebind `self`), an",
+          "array `[T; N]` a `Vector T N` whose indexing has the `index out of bounds` panic outcome, a generic parameter",
+          "`T: PartialOrd/Ord` a type parameter with decidable `≤` `<`, `&T` is `T`, `a..b` / `a..=b` are `Range.mk` /",
+          "`RangeInclusive.mk`, `max`/`min` are `cmpMax`/`cmpMin`.  OH/Props/Arith*.lean ties these definitions to the",
+          "hand-written models.",
           "-/", "import OH.Model.RustInt", "namespace OH.Generated.Arith", "open OH.Model.RustInt", ""]
     used_structs = []
+
+    used_enums = []
+
+    def use_struct(name):
+        if name in used_structs:
+            return
+        for _, ft in structs[name]:
+            if ft[0] == "array" and ft[1][0] == "struct":
+                use_struct(ft[1][1])
+            if ft[0] == "struct":
+                use_struct(ft[1])
+            if ft[0] in ("range", "rangeincl") and ft[1][0] == "struct":
+                use_struct(ft[1][1])
+            if ft[0] == "enum" and ft[1] not in used_enums:
+                used_enums.append(ft[1])
+        used_structs.append(name)
     for key in emitted:
         fi = fns[key]
-        if fi.self_ty and fi.self_ty not in used_structs:
-            used_structs.append(fi.self_ty)
+        if fi.self_ty in structs:
+            use_struct(fi.self_ty)
+    for key in emitted:
+        st = fns[key].self_t
+        if st is not None and st[0] == "enum" and st[1] not in used_enums:
+            used_enums.append(st[1])
+    for name in used_enums:
+        L.append(f"/-- `enum {name}` ({enum_src[name]}), fieldless; `{name}.discr` is the discriminant (`self as <integer type>`) -/")
+        L.append(f"inductive {name} where")
+        L.append("  " + " ".join(f"| {lname(v)}" for v, _ in enums[name]))
+        L.append("  deriving DecidableEq, Repr")
+        L.append("")
+        L.append(f"def {name}.discr : {name} → Int")
+        for v, d in enums[name]:
+            L.append(f"  | .{lname(v)} => {d}")
+        L.append("")
     for name in used_structs:
         L.append(f"/-- `struct {name}` ({struct_src[name]}) -/")
         L.append(f"structure {name} where")
         for fn, ft in structs[name]:
-            L.append(f"  {field_name(fn)} : Int  -- {ft[1]}")
+            L.append(f"  {field_name(fn)} : {lty(ft)}  -- {show(ft)}")
         L.append("  deriving DecidableEq, Repr")
         L.append("")
+        if any(name in fns[key].ordered_structs for key in emitted):
+            # `#[derive(PartialOrd, Ord)]`: the lexicographic order of the fields, in declaration order
+            fs = [field_name(fn) for fn, _ in structs[name]]
+
+            def lex(fs, last):
+                if len(fs) == 1:
+                    return f"a.{fs[0]} {last} b.{fs[0]}"
+                return f"a.{fs[0]} < b.{fs[0]} ∨ (a.{fs[0]} = b.{fs[0]} ∧ ({lex(fs[1:], last)}))"
+            L.append(f"/-- `#[derive(PartialOrd, Ord)]` on `{name}`: lexicographic, fields in declaration order -/")
+            L.append(f"instance : LT {name} := ⟨fun a b => {lex(fs, '<')}⟩")
+            L.append(f"instance : LE {name} := ⟨fun a b => {lex(fs, '≤')}⟩")
+            L.append(f"instance : DecidableLT {name} := fun a b => inferInstanceAs (Decidable ({lex(fs, '<')}))")
+            L.append(f"instance : DecidableLE {name} := fun a b => inferInstanceAs (Decidable ({lex(fs, '≤')}))")
+            L.append("")
     cur = None
     for key in emitted:
         fi = fns[key]
@@ -1567,10 +2951,21 @@ def translate(repo, overrides):
             L.append("")
             cur = fi.ns
         f = fi.node
-        sig = ", ".join((["self"] if f.has_self else []) + [f"{pn}: {show(Infer.conc(Infer(fi, structs, derefs, fns), pt))}" for pn, pt in f.params])
+        sig = ", ".join((["&mut self" if f.mut_self else "&self" if getattr(f, "ref_self", False) else "self"] if f.has_self else []) + [f"{pn}: {show(fi.conc(pt))}" for pn, pt in f.params])
         owner = (fi.self_ty + "::") if fi.self_ty else ""
-        rshow = show(f.ret).replace("Self", fi.self_ty or "Self")
-        L.append(f"/-- `{owner}{f.name}({sig}) -> {rshow}` ({fi.fname}:{f.line}) -/")
+        rshow = show(fi.conc(f.ret))
+        if f.tparams:
+            owner = "<" + ", ".join(f"{a}: {' + '.join(sorted(b))}" if b else a for a, b in f.tparams.items()) + "> " + owner
+        if getattr(fi, "closure_of", None):
+            L.append(f"/-- the closure `|{f.params[0][0]}| ..` passed to `.{fi.closure_of[1]}(..)` in `{fi.closure_of[0]}` ({fi.fname}:{f.line}), "
+                     f"`{f.params[0][0]}: {show(f.params[0][1])}` → `{rshow}` (types as inferred by rustc: an assumption) -/")
+        elif fi.is_const:
+            L.append(f"/-- `const {owner}{f.name}: {rshow}` ({fi.fname}:{f.line}) -/")
+        elif fi.holes:
+            hs = ", ".join(f"ext{n + 1} = the result of the untranslated call `.{hn}(..)` at line {hl}" for n, (hn, hl, _) in enumerate(fi.holes))
+            L.append(f"/-- `{owner}{f.name}({sig}) -> {rshow}` ({fi.fname}:{f.line}); {hs} -/")
+        else:
+            L.append(f"/-- `{owner}{f.name}({sig}) -> {rshow}` ({fi.fname}:{f.line}) -/")
         L.append(Gen(fi, structs).gen_fn())
         L.append("")
     if cur is not None:
